@@ -798,3 +798,1392 @@ Proof.
     eapply Adds_trans; [exact A1|]. eapply Adds_trans; [exact A2|exact A3]. }
   rewrite WD3, PK3. split; [exists l1; auto|]. split; [exact W1|exact M1].
 Qed.
+
+Definition benign (e : aev) : Prop :=
+  match e with AWireGetA _ _ _ _ | AWireOutA _ _ _ _ | AWireGetD _ | AWireOutD _ => False | _ => True end.
+
+Lemma out_ev_plain o e : out_ev o e -> is_wake e = false /\ is_cb e = false /\ benign e.
+Proof. intros [->|[(id & r & -> & _)|(id & r & -> & _)]]; repeat split. Qed.
+
+Lemma ecount_zero p l : Forall (fun e => p e = false) l -> ecount p l = O.
+Proof. unfold ecount. induction 1 as [|x l Hx Hl IH]; cbn [filter]; [reflexivity|]. rewrite Hx. exact IH. Qed.
+
+Lemma pkt_mono_keeps now o m m' j : pkt_mono now o m m' -> pkt_get j m <> None -> pkt_get j m' <> None.
+Proof. intros [M _] H. destruct (M j) as [E|(c & z & _ & E)]; rewrite E; [exact H|discriminate]. Qed.
+
+(* the time/packet part of the invariant survives anything that only adds benign agenda entries,
+   appends transmitted segments to the data wire and stamps their packets with the current time *)
+Lemma T_after_outs st st' o evs :
+  l_now st' = l_now st -> l_wa st' = l_wa st ->
+  Adds (l_now st) (l_agenda st) (l_agenda st') evs -> Forall benign evs ->
+  (exists l, wd_items (l_wd st') = wd_items (l_wd st) ++ l /\ forall id, In id l -> exists z, In (Tx id z) o) ->
+  pkt_mono (l_now st) o (l_pkt st) (l_pkt st') ->
+  LInvT st -> LInvT st'.
+Proof.
+  intros Hn Hwa Ha Hb (l & Hl & Hl') Hm [Ts Tf Tp Tw Te Td Tk]. constructor; rewrite ?Hn, ?Hwa; auto.
+  - eapply Adds_sorted; eauto.
+  - eapply Adds_future; eauto.
+  - intros id t c H. destruct Hm as [M _]. destruct (M id) as [E|(c' & z & _ & E)]; rewrite E in H.
+    + eapply Tp; eauto.
+    + injection H as <- _. apply Qle_refl.
+  - apply Forall_forall. intros a Hin. destruct (Adds_In_new _ _ _ _ _ Ha Hin) as [Hold|[Hnew _]].
+    + rewrite Forall_forall in Te. apply Te, Hold.
+    + rewrite Forall_forall in Hb. specialize (Hb _ Hnew). destruct (ae_ev a); cbn in *; auto; contradiction.
+  - rewrite Hl. apply Forall_app. split.
+    + eapply Forall_impl; [|exact Td]. intros id. apply pkt_mono_keeps with (1 := Hm).
+    + apply Forall_forall. intros id Hid. destruct (Hl' id Hid) as (z & Hz). destruct Hm as [_ M2].
+      destruct (M2 id z Hz) as (c & E). rewrite E. discriminate.
+  - apply Forall_forall. intros a Hin. destruct (Adds_In_new _ _ _ _ _ Ha Hin) as [Hold|[Hnew _]].
+    + rewrite Forall_forall in Tk. specialize (Tk _ Hold). destruct (ae_ev a); cbn in *; auto; eapply pkt_mono_keeps; eauto.
+    + rewrite Forall_forall in Hb. specialize (Hb _ Hnew). destruct (ae_ev a); cbn in *; auto; contradiction.
+Qed.
+
+Lemma sev_extra_benign s s' e : Forall benign (sev_extra s s' e).
+Proof.
+  unfold sev_extra. apply Forall_app. split.
+  - destruct (pend s <? pend s')%nat; repeat constructor.
+  - destruct (wake s' && _); repeat constructor.
+Qed.
+
+(* one sender event inside the loop: it is defined, and the whole invariant is re-established *)
+Lemma sender_event_inv lc st e ev :
+  lc_fx lc = repaired -> 0 < mss (lc_cfg lc) -> LInvA lc st (Some ev) -> sample_ok e ->
+  (match e with
+   | EWake => ev = ASenderWake
+   | EStoreCb => ev = ASenderCb
+   | EExpire id => ev = ATimerFire id /\ has_timer id (timers (l_snd st)) = true
+   | EAck _ _ _ _ => is_wake ev = false /\ is_cb ev = false
+   end) ->
+  exists st', sender_event lc st e = inl st' /\ LInvA lc st' None /\
+              l_now st' = l_now st /\ l_sink st' = l_sink st /\ l_wa st' = l_wa st.
+Proof.
+  intros Hfx Hm [Is Iw Ic It] Hs Hev.
+  assert (He : enabled (l_snd st) e).
+  { destruct e as [ackno pid sample o|id| |]; cbn [enabled]; auto.
+    - apply Hev.
+    - subst ev. cbn [is_cb b2n] in Ic. lia.
+    - subst ev. cbn [is_wake b2n] in Iw. destruct (wake (l_snd st)); [reflexivity|cbn [b2n] in Iw; lia]. }
+  destruct (sender_event_spec lc st e Hfx Hm Is He) as
+      (st' & s' & o & Hse & Hstep & Hsn & Hn & Hsk & Hwa & Hor & (evs & Ha & Hf & _ & _) & Hl & Hw & Hpm).
+  exists st'. split; [exact Hse|]. split; [|auto].
+  assert (Is' : SInv (lc_cfg lc) (norm_sender s')) by (apply norm_sinv; eapply step_sinv; eauto).
+  assert (Pl : Forall (fun x => is_wake x = false) evs /\ Forall (fun x => is_cb x = false) evs /\ Forall benign evs).
+  { repeat split; eapply Forall_impl; try exact Hf; intros x Hx; apply (out_ev_plain o x Hx). }
+  destruct Pl as (Pw & Pc & Pb).
+  constructor.
+  - rewrite Hsn. exact Is'.
+  - (* wake count *)
+    rewrite (Adds_count _ _ _ _ is_wake Ha), ecount_app, (ecount_zero _ _ Pw). rewrite Hsn. unfold sev_extra.
+    rewrite ecount_app.
+    assert (E1 : ecount is_wake (if (pend (l_snd st) <? pend (norm_sender s'))%nat then [ASenderCb] else []) = O)
+      by (destruct (_ <? _)%nat; reflexivity).
+    rewrite E1. change (wake (norm_sender s')) with (wake s').
+    destruct e as [ackno pid sample orc|id| |]; cbn [step] in Hstep.
+    + destruct Hev as [Ew _]. rewrite Ew in Iw. cbn [b2n] in Iw.
+      apply on_ack_shape in Hstep; [|apply Is]. destruct Hstep as (_ & _ & Wk & _). rewrite Wk.
+      destruct (wake (l_snd st)); cbn [andb negb ecount filter length is_wake b2n] in *; lia.
+    + destruct Hev as [-> _]. cbn [is_wake b2n] in Iw.
+      apply on_timer_shape in Hstep as (_ & -> & _). proj.
+      destruct (wake (l_snd st)); cbn [andb negb ecount filter length is_wake b2n] in *; lia.
+    + subst ev. cbn [is_wake b2n] in Iw.
+      apply on_storecb_shape in Hstep as (_ & p & _ & [(Wt & _ & ->)|(_ & ->)]); proj.
+      * assert (Hwk : wake (l_snd st) = false).
+        { destruct (wake (l_snd st)) eqn:E; [|reflexivity]. destruct (si_wake _ _ Is E) as [_ Hx]. congruence. }
+        rewrite Hwk in *. cbn [andb negb ecount filter length is_wake b2n] in *. lia.
+      * destruct (wake (l_snd st)); cbn [andb negb ecount filter length is_wake b2n] in *; lia.
+    + subst ev. cbn [is_wake b2n] in Iw. cbn [negb]. rewrite andb_true_r.
+      assert (Z0 : acount is_wake (l_agenda st) = O) by (destruct (wake (l_snd st)); cbn [b2n] in Iw; lia).
+      destruct (wake s'); cbn [ecount filter length is_wake b2n]; lia.
+  - (* store callback count *)
+    rewrite (Adds_count _ _ _ _ is_cb Ha), ecount_app, (ecount_zero _ _ Pc). rewrite Hsn. unfold sev_extra.
+    rewrite ecount_app.
+    assert (E1 : ecount is_cb (if wake (norm_sender s') && negb match e with EWake => false | _ => wake (l_snd st) end then [ASenderWake] else []) = O)
+      by (destruct (_ && _); reflexivity).
+    rewrite E1. change (pend (norm_sender s')) with (pend s').
+    destruct e as [ackno pid sample orc|id| |]; cbn [step] in Hstep.
+    + destruct Hev as [_ Ec]. rewrite Ec in Ic. cbn [b2n] in Ic.
+      apply on_ack_shape in Hstep; [|apply Is]. destruct Hstep as (_ & _ & _ & _ & _ & [D|N]).
+      * destruct D as (_&_&_&_&_&_&_&_&_&Pd&_). rewrite Pd. rewrite Nat.ltb_irrefl. cbn [ecount filter length]. lia.
+      * destruct N as (_&_&_&_&_&_&_&_&_&_&Pd). rewrite Pd.
+        replace (pend (l_snd st) <? S (pend (l_snd st)))%nat with true by (symmetry; apply Nat.ltb_lt; lia).
+        cbn [ecount filter length is_cb]. lia.
+    + destruct Hev as [-> _]. cbn [is_cb b2n] in Ic.
+      apply on_timer_shape in Hstep as (_ & -> & _). proj. rewrite Nat.ltb_irrefl. cbn [ecount filter length]. lia.
+    + subst ev. cbn [is_cb b2n] in Ic.
+      apply on_storecb_shape in Hstep as (_ & p & Hp & [(_ & _ & ->)|(_ & ->)]); proj; rewrite Hp in *;
+        (replace (S p <? p)%nat with false by (symmetry; apply Nat.ltb_ge; lia)); cbn [ecount filter length]; lia.
+    + subst ev. cbn [is_cb b2n] in Ic.
+      pose proof Hstep as H0. unfold on_wake in H0. destruct (wake (l_snd st) && negb (finished (l_snd st))); [|discriminate].
+      apply send_loop_flags in H0 as (Pd & _). proj. rewrite Pd. rewrite Nat.ltb_irrefl. cbn [ecount filter length]. lia.
+  - eapply (T_after_outs st st' o); eauto.
+    apply Forall_app. split; [exact Pb|apply sev_extra_benign].
+Qed.
+
+(* ---- scheduling one more agenda entry ---- *)
+Lemma sched_T st t p e :
+  (l_now st <= t)%Q -> ev_time_ok (l_now st) e -> ev_pkt_ok (l_pkt st) e -> LInvT st -> LInvT (sched st t p e).
+Proof.
+  intros Ht He Hp [Ts Tf Tpk Tw Te Td Tk].
+  pose proof (sched_Adds st t p e Ht) as Ha.
+  constructor; lproj; auto.
+  - eapply Adds_sorted; eauto.
+  - eapply Adds_future; eauto.
+  - apply Forall_forall. intros a Hin. apply ainsert_In in Hin as [->|Hin]; [exact He|]. rewrite Forall_forall in Te. auto.
+  - apply Forall_forall. intros a Hin. apply ainsert_In in Hin as [->|Hin]; [exact Hp|]. rewrite Forall_forall in Tk. auto.
+Qed.
+
+Lemma sched_A lc st t p e ev0 :
+  (l_now st <= t)%Q -> is_wake e = false -> is_cb e = false ->
+  ev_time_ok (l_now st) e -> ev_pkt_ok (l_pkt st) e -> LInvA lc st ev0 -> LInvA lc (sched st t p e) ev0.
+Proof.
+  intros Ht Hw Hc He Hp [Is Iw Ic It]. constructor.
+  - exact Is.
+  - change (l_snd (sched st t p e)) with (l_snd st). rewrite <- Iw. unfold sched; lproj. rewrite ainsert_count. cbn [ae_ev]. rewrite Hw. reflexivity.
+  - change (l_snd (sched st t p e)) with (l_snd st). rewrite <- Ic. unfold sched; lproj. rewrite ainsert_count. cbn [ae_ev]. rewrite Hc. reflexivity.
+  - apply sched_T; auto.
+Qed.
+
+Lemma LInvA_done lc st e : is_wake e = false -> is_cb e = false -> LInvA lc st (Some e) -> LInvA lc st None.
+Proof. intros Hw Hc [Is Iw Ic It]. rewrite Hw in Iw. rewrite Hc in Ic. cbn [b2n] in *. constructor; auto. Qed.
+
+(* ---- the wires ---- *)
+Lemma wd_get_A lc st : LInvA lc st None -> LInvA lc (wd_get st) None.
+Proof.
+  intros I. unfold wd_get. destruct (wd_items (l_wd st)) as [|x rest] eqn:E.
+  - destruct I as [Is Iw Ic [Ts Tf Tpk Tw Te Td Tk]]. constructor; lproj; auto. constructor; lproj; auto.
+  - assert (Hx : pkt_get x (l_pkt st) <> None /\ Forall (fun id => pkt_get id (l_pkt st) <> None) rest).
+    { destruct I as [_ _ _ [_ _ _ _ _ Td _]]. rewrite E in Td. inversion Td; auto. }
+    destruct Hx as [Hx Hrest].
+    apply sched_A; lproj; try reflexivity; try exact Logic.I; try exact Hx; try apply Qle_refl.
+    destruct I as [Is Iw Ic [Ts Tf Tpk Tw Te Td Tk]]. constructor; lproj; auto. constructor; lproj; auto.
+Qed.
+
+Lemma wa_get_A lc st : LInvA lc st None -> LInvA lc (wa_get st) None.
+Proof.
+  intros I. unfold wa_get. destruct (wa_items (l_wa st)) as [|x rest] eqn:E.
+  - destruct I as [Is Iw Ic [Ts Tf Tpk Tw Te Td Tk]]. constructor; lproj; auto. constructor; lproj; auto.
+  - assert (Hx : (a_time x <= l_now st)%Q /\ Forall (fun r => (a_time r <= l_now st)%Q) rest).
+    { destruct I as [_ _ _ [_ _ _ Tw _ _ _]]. rewrite E in Tw. inversion Tw; auto. }
+    destruct Hx as [Hx Hrest].
+    apply sched_A; lproj; try reflexivity; try exact Logic.I; try exact Hx; try apply Qle_refl.
+    destruct I as [Is Iw Ic [Ts Tf Tpk Tw Te Td Tk]]. constructor; lproj; auto. constructor; lproj; auto.
+Qed.
+
+Lemma deliver_data_A lc st id :
+  pkt_get id (l_pkt st) <> None -> LInvA lc st None ->
+  exists st', deliver_data lc st id = inl st' /\ LInvA lc st' None /\ l_now st' = l_now st /\ l_snd st' = l_snd st.
+Proof.
+  intros Hp I. unfold deliver_data. destruct (pkt_get id (l_pkt st)) as [[tm ct]|] eqn:E; [|contradiction].
+  assert (Htm : (tm <= l_now st)%Q) by (destruct I as [_ _ _ [_ _ Tpk _ _ _ _]]; eapply Tpk; eauto).
+  destruct (existsb (Nat.eqb (l_n2 st)) (lc_drop_ack lc)).
+  - eexists. split; [reflexivity|]. split; [|split; reflexivity].
+    destruct I as [Is Iw Ic [Ts Tf Tpk Tw Te Td Tk]]. constructor; lproj; auto. constructor; lproj; auto.
+  - eexists. split; [reflexivity|]. split; [|split; reflexivity].
+    apply sched_A; lproj; try reflexivity; try exact Logic.I; try apply Qle_refl.
+    destruct I as [Is Iw Ic [Ts Tf Tpk Tw Te Td Tk]]. constructor; lproj; auto. constructor; lproj; auto.
+    apply Forall_app. split; [exact Tw|]. constructor; [exact Htm|constructor].
+Qed.
+
+Lemma nq_nonneg a b : (b <= a)%Q -> (0 <= nq (a - b))%Q.
+Proof. intros H. rewrite nq_eq. lra. Qed.
+
+Lemma deliver_ack_A lc st ackno pid tm ev :
+  lc_fx lc = repaired -> 0 < mss (lc_cfg lc) -> is_wake ev = false -> is_cb ev = false ->
+  (tm <= l_now st)%Q -> LInvA lc st (Some ev) ->
+  exists st', deliver_ack lc st ackno pid tm = inl st' /\ LInvA lc st' None /\ l_now st' = l_now st.
+Proof.
+  intros Hfx Hm Hw Hc Htm I. unfold deliver_ack.
+  set (st1 := mkls _ _ _ _ _ _ _ _ _ _ (tl (l_oracle st)) _ _ _).
+  assert (I1 : LInvA lc st1 (Some ev)).
+  { destruct I as [Is Iw Ic [Ts Tf Tpk Tw Te Td Tk]]. constructor; subst st1; lproj; auto. constructor; lproj; auto. }
+  destruct (sender_event_inv lc st1 (EAck ackno pid (nq (l_now st - tm)) (hd 0%Q (l_oracle st))) ev Hfx Hm I1) as (st' & H1 & H2 & H3 & _).
+  - cbn [sample_ok]. apply nq_nonneg. exact Htm.
+  - split; assumption.
+  - exists st'. split; [exact H1|]. split; [exact H2|exact H3].
+Qed.
+
+(* ---- one agenda entry ---- *)
+Record lc_ok (lc : lcfg) : Prop := {
+  ok_fx : lc_fx lc = repaired;
+  ok_mss : 0 < mss (lc_cfg lc);
+  ok_delay : (0 <= lc_delay lc)%Q
+}.
+
+Lemma handle_A lc st ev :
+  lc_ok lc -> LInvA lc st (Some ev) -> ev_time_ok (l_now st) ev -> ev_pkt_ok (l_pkt st) ev ->
+  exists st', handle lc st ev = inl st' /\ LInvA lc st' None /\ l_now st' = l_now st.
+Proof.
+  intros [Hfx Hm Hd] HI Het Hep. destruct ev as [| |id|id|w|w|id|id|ackno pid tm ct|ackno pid tm ct]; cbn [handle].
+  - destruct (sender_event_inv lc st EWake ASenderWake Hfx Hm HI Logic.I eq_refl) as (st' & A & B & C & _). eauto.
+  - destruct (sender_event_inv lc st EStoreCb ASenderCb Hfx Hm HI Logic.I eq_refl) as (st' & A & B & C & _). eauto.
+  - (* Timer Initialize *)
+    destruct (find (fun p => fst p =? id) (timers (l_snd st))) as [[k r]|] eqn:Ef.
+    + apply find_some in Ef as [Hin _].
+      assert (Hr : (0 < r)%Q).
+      { destruct HI as [Is _ _ _]. pose proof (si_armed _ _ Is) as Ha. rewrite Forall_forall in Ha. apply (Ha _ Hin). }
+      eexists. split; [reflexivity|]. split; [|reflexivity].
+      apply sched_A; try reflexivity; try exact Logic.I; [lra|]. eapply LInvA_done; eauto; reflexivity.
+    + eexists. split; [reflexivity|]. split; [|reflexivity]. eapply LInvA_done; eauto; reflexivity.
+  - (* Timer Timeout *)
+    destruct (has_timer id (timers (l_snd st))) eqn:Eh.
+    + destruct (sender_event_inv lc st (EExpire id) (ATimerFire id) Hfx Hm HI Logic.I (conj eq_refl Eh)) as (st' & A & B & C & _). eauto.
+    + eexists. split; [reflexivity|]. split; [|reflexivity]. eapply LInvA_done; eauto; reflexivity.
+  - destruct w; eexists; (split; [reflexivity|]); (split; [|unfold wa_get, wd_get; repeat match goal with |- context [match ?x with _ => _ end] => destruct x end; reflexivity]).
+    + apply wa_get_A. eapply LInvA_done; eauto; reflexivity.
+    + apply wd_get_A. eapply LInvA_done; eauto; reflexivity.
+  - assert (I0 : LInvA lc st None) by (eapply LInvA_done; eauto; destruct w; reflexivity).
+    destruct w.
+    + destruct (wa_waiting (l_wa st)); eexists; (split; [reflexivity|]); (split; [|unfold wa_get; repeat match goal with |- context [match ?x with _ => _ end] => destruct x end; reflexivity]); [apply wa_get_A|]; exact I0.
+    + destruct (wd_waiting (l_wd st)); eexists; (split; [reflexivity|]); (split; [|unfold wd_get; repeat match goal with |- context [match ?x with _ => _ end] => destruct x end; reflexivity]); [apply wd_get_A|]; exact I0.
+  - (* data wire: packet granted *)
+    assert (I0 : LInvA lc st None) by (eapply LInvA_done; eauto; reflexivity).
+    cbn [ev_pkt_ok] in Hep. destruct (pkt_get id (l_pkt st)) as [[tm ct]|] eqn:Ep; [|contradiction].
+    destruct (Qltb (l_now st - ct) (lc_delay lc)) eqn:Eq.
+    + apply Qltb_true in Eq. eexists. split; [reflexivity|]. split; [|reflexivity].
+      apply sched_A; try reflexivity; try exact Logic.I; [lra| |exact I0]. cbn [ev_pkt_ok]. rewrite Ep. discriminate.
+    + destruct (deliver_data_A lc st id) as (st1 & D1 & D2 & D3 & _); [rewrite Ep; discriminate|exact I0|].
+      rewrite D1. cbn [bind]. eexists. split; [reflexivity|]. split; [apply wd_get_A; exact D2|].
+      unfold wd_get. destruct (wd_items (l_wd st1)); lproj; exact D3.
+  - assert (I0 : LInvA lc st None) by (eapply LInvA_done; eauto; reflexivity).
+    destruct (deliver_data_A lc st id) as (st1 & D1 & D2 & D3 & _); [exact Hep|exact I0|].
+    rewrite D1. cbn [bind]. eexists. split; [reflexivity|]. split; [apply wd_get_A; exact D2|].
+    unfold wd_get. destruct (wd_items (l_wd st1)); lproj; exact D3.
+  - (* ACK wire: packet granted *)
+    cbn [ev_time_ok] in Het.
+    destruct (Qltb (l_now st - ct) (lc_delay lc)) eqn:Eq.
+    + apply Qltb_true in Eq. eexists. split; [reflexivity|]. split; [|reflexivity].
+      apply sched_A; try reflexivity; try exact Logic.I; [lra|exact Het|]. eapply LInvA_done; eauto; reflexivity.
+    + destruct (deliver_ack_A lc st ackno pid tm (AWireGetA ackno pid tm ct) Hfx Hm eq_refl eq_refl Het HI) as (st1 & D1 & D2 & D3).
+      rewrite D1. cbn [bind]. eexists. split; [reflexivity|]. split; [apply wa_get_A; exact D2|].
+      unfold wa_get. destruct (wa_items (l_wa st1)); lproj; exact D3.
+  - cbn [ev_time_ok] in Het.
+    destruct (deliver_ack_A lc st ackno pid tm (AWireOutA ackno pid tm ct) Hfx Hm eq_refl eq_refl Het HI) as (st1 & D1 & D2 & D3).
+    rewrite D1. cbn [bind]. eexists. split; [reflexivity|]. split; [apply wa_get_A; exact D2|].
+    unfold wa_get. destruct (wa_items (l_wa st1)); lproj; exact D3.
+Qed.
+
+(* ---- taking the next entry off the agenda ---- *)
+Definition popped (st : lstate) (a : aentry) (rest : list aentry) : lstate :=
+  mkls (ae_time a) (l_seq st) rest (l_snd st) (l_sink st) (l_pkt st) (l_wd st) (l_wa st)
+       (l_n1 st) (l_n2 st) (l_oracle st) (l_slog st) (l_d1 st) (l_d2 st).
+
+Lemma pop_A lc st a rest :
+  LInvA lc st None -> l_agenda st = a :: rest ->
+  LInvA lc (popped st a rest) (Some (ae_ev a)) /\ ev_time_ok (ae_time a) (ae_ev a) /\ ev_pkt_ok (l_pkt st) (ae_ev a) /\
+  (l_now st <= ae_time a)%Q.
+Proof.
+  intros [Is Iw Ic [Ts Tf Tpk Tw Te Td Tk]] E. rewrite E in *.
+  assert (Hna : (l_now st <= ae_time a)%Q) by (inversion Tf; assumption).
+  assert (Mono : forall e, ev_time_ok (l_now st) e -> ev_time_ok (ae_time a) e).
+  { intros e. destruct e; cbn [ev_time_ok]; auto; intros; lra. }
+  split; [|split; [|split]].
+  - constructor; unfold popped; lproj; auto.
+    + rewrite <- Iw. unfold acount. cbn [filter]. destruct (is_wake (ae_ev a)); cbn [length b2n]; lia.
+    + rewrite <- Ic. unfold acount. cbn [filter]. destruct (is_cb (ae_ev a)); cbn [length b2n]; lia.
+    + constructor; lproj.
+      * cbn [asorted] in Ts. apply Ts.
+      * cbn [asorted] in Ts. apply Ts.
+      * intros id t c H. specialize (Tpk id t c H). lra.
+      * eapply Forall_impl; [|exact Tw]. intros r Hr. cbn beta in *. lra.
+      * inversion Te; subst. eapply Forall_impl; [|eassumption]. intros b. apply Mono.
+      * exact Td.
+      * inversion Tk; assumption.
+  - inversion Te; subst. apply Mono. assumption.
+  - inversion Tk; assumption.
+  - exact Hna.
+Qed.
+
+Lemma lstep_A lc st r :
+  lc_ok lc -> LInvA lc st None -> lstep lc st = Some r ->
+  exists st', r = inl st' /\ LInvA lc st' None /\ (l_now st <= l_now st')%Q.
+Proof.
+  intros Hok HI. unfold lstep. destruct (l_agenda st) as [|a rest] eqn:E; [discriminate|].
+  intros H; injection H as <-. destruct (pop_A lc st a rest HI E) as (P1 & P2 & P3 & P4).
+  destruct (handle_A lc (popped st a rest) (ae_ev a) Hok P1 P2 P3) as (st' & H1 & H2 & H3).
+  exists st'. split; [exact H1|]. split; [exact H2|]. rewrite H3. exact P4.
+Qed.
+
+(* the states the loop can be in *)
+Inductive lreach (lc : lcfg) (st0 : lstate) : lstate -> Prop :=
+| reach_init : lreach lc st0 st0
+| reach_step st st' : lreach lc st0 st -> lstep lc st = Some (inl st') -> lreach lc st0 st'.
+
+Lemma linit_A lc cw ss rtt0 orc :
+  (zq (mss (lc_cfg lc)) <= cw)%Q -> (0 < rtt0)%Q -> LInvA lc (linit cw ss rtt0 orc) None.
+Proof.
+  intros Hc Hr. constructor; unfold linit; lproj.
+  - apply init_sinv; assumption.
+  - reflexivity.
+  - reflexivity.
+  - constructor; lproj.
+    + cbn [asorted ae_time]. repeat split; repeat constructor; apply Qle_refl.
+    + repeat constructor; apply Qle_refl.
+    + intros id t c H. discriminate.
+    + constructor.
+    + repeat constructor.
+    + constructor.
+    + repeat constructor.
+Qed.
+
+Lemma reach_A lc cw ss rtt0 orc st :
+  lc_ok lc -> (zq (mss (lc_cfg lc)) <= cw)%Q -> (0 < rtt0)%Q ->
+  lreach lc (linit cw ss rtt0 orc) st -> LInvA lc st None.
+Proof.
+  intros Hok Hc Hr. induction 1 as [|st st' Hreach IH Hstep]; [apply linit_A; assumption|].
+  destruct (lstep_A lc st _ Hok IH Hstep) as (st2 & E & H2 & _). injection E as <-. exact H2.
+Qed.
+
+Lemma lrun_reach lc st0 : forall fuel st, lreach lc st0 st -> lreach lc st0 (lfinal (lrun fuel lc st)).
+Proof.
+  induction fuel as [|f IH]; intros st Hr; cbn [lrun lfinal]; [exact Hr|].
+  destruct (l_agenda st) as [|a rest] eqn:E; [exact Hr|].
+  destruct (Qle_bool (lc_tmax lc) (ae_time a)); [exact Hr|].
+  destruct (lstep lc st) as [[st'|e]|] eqn:Es; cbn [lfinal]; try exact Hr.
+  apply IH. eapply reach_step; eauto.
+Qed.
+
+(* THE LOOP NEVER RAISES: every dictionary lookup of the repaired sender hits, no division by zero,
+   no Timer with a non-positive timeout, no event that cannot occur -- for every flow, delay, drop
+   pattern, CUBIC oracle and however long the loop runs *)
+Theorem loop_never_raises lc cw ss rtt0 orc :
+  lc_ok lc -> (zq (mss (lc_cfg lc)) <= cw)%Q -> (0 < rtt0)%Q ->
+  forall fuel st e, lrun fuel lc (linit cw ss rtt0 orc) <> LRaised st e.
+Proof.
+  intros Hok Hc Hr fuel.
+  assert (G : forall fuel st, LInvA lc st None -> forall st' e, lrun fuel lc st <> LRaised st' e).
+  { clear fuel. induction fuel as [|f IH]; intros st HI st' e; cbn [lrun]; [discriminate|].
+    destruct (l_agenda st) as [|a rest] eqn:E; [discriminate|].
+    destruct (Qle_bool (lc_tmax lc) (ae_time a)); [discriminate|].
+    destruct (lstep lc st) as [r|] eqn:Es; [|discriminate].
+    destruct (lstep_A lc st r Hok HI Es) as (st2 & -> & H2 & _). apply IH. exact H2. }
+  intros st e. apply G. apply linit_A; assumption.
+Qed.
+
+(* and the unrepaired sender does raise in the loop: one segment, RTO below the round-trip time *)
+Definition lc_found : lcfg := mklcfg (mkfx true false false) (mkcfg 1000 1000 Reno) (5 # 2) [] [] (1048576 # 1).
+Theorem loop_raises_before_fix :
+  exists st, lrun 200 lc_found (linit (1000 # 1) (65535 # 1) (1 # 4) []) = LRaised st (LSender (KeyErr 1000)).
+Proof. eexists. vm_compute. reflexivity. Qed.
+
+(* ================================================================================================ *)
+(* Part 4: last_ack <= contiguous prefix at the sink <= next_seq;  last_ack never decreases *)
+
+Definition has_ev (st : lstate) (ev : option aev) (e : aev) : Prop :=
+  ev = Some e \/ exists a, In a (l_agenda st) /\ ae_ev a = e.
+
+Definition ackno_of (e : aev) : option Z :=
+  match e with AWireGetA a _ _ _ | AWireOutA a _ _ _ => Some a | _ => None end.
+Definition dataid_of (e : aev) : option Z :=
+  match e with AWireGetD id | AWireOutD id => Some id | _ => None end.
+Definition is_holdA (e : aev) : bool := match ackno_of e with Some _ => true | None => false end.
+Definition is_initA (e : aev) : bool := match e with AWireInit true => true | _ => false end.
+
+Definition seg_ok (c : config) (s : sender) (id : Z) : Prop := 0 <= id /\ id + mss c <= next_seq s.
+
+Fixpoint sortedZ (l : list Z) : Prop :=
+  match l with [] => True | x :: t => Forall (fun y => x <= y) t /\ sortedZ t end.
+
+Definition opt_count (p : aev -> bool) (ev : option aev) : nat :=
+  match ev with Some e => b2n (p e) | None => O end.
+
+Record LInvB (lc : lcfg) (st : lstate) (ev : option aev) : Prop := {
+  lb_ns : 0 <= next_seq (l_snd st);
+  lb_sent : Forall (seg_ok (lc_cfg lc) (l_snd st)) (sent (l_snd st));
+  lb_sink : exists hist, Inv hist (l_sink st) /\ prefix_len hist (nse (l_sink st)) /\
+                         Forall (fun g => snd g = mss (lc_cfg lc) /\ seg_ok (lc_cfg lc) (l_snd st) (fst g)) hist;
+  lb_wd : Forall (seg_ok (lc_cfg lc) (l_snd st)) (wd_items (l_wd st));
+  lb_evd : forall e id, has_ev st ev e -> dataid_of e = Some id -> seg_ok (lc_cfg lc) (l_snd st) id;
+  lb_eva : forall e a, has_ev st ev e -> ackno_of e = Some a ->
+                       last_ack (l_snd st) <= a <= nse (l_sink st) /\ Forall (fun r => a <= a_no r) (wa_items (l_wa st));
+  lb_wa : Forall (fun r => last_ack (l_snd st) <= a_no r <= nse (l_sink st)) (wa_items (l_wa st));
+  lb_wa_sorted : sortedZ (map a_no (wa_items (l_wa st)));
+  lb_ctl : (acount is_holdA (l_agenda st) + opt_count is_holdA ev + acount is_initA (l_agenda st) + opt_count is_initA ev
+            + b2n (wa_waiting (l_wa st)))%nat = 1%nat;
+  lb_la : last_ack (l_snd st) <= nse (l_sink st)
+}.
+
+(* the prefix of arrivals that all end at or below N is at most N *)
+Lemma prefix_le_bound hist n N :
+  prefix_len hist n -> 0 <= N -> (forall g, In g hist -> fst g + snd g <= N) -> n <= N.
+Proof.
+  intros (H0 & Hcov & _) HN Hb. destruct (Z_le_gt_dec n N) as [|Hgt]; [assumption|]. exfalso.
+  assert (Hc : covered hist (n - 1)) by (apply Hcov; lia).
+  destruct Hc as (g & Hg & Hr). specialize (Hb g Hg). lia.
+Qed.
+
+Lemma LInvB_nse_le lc st ev : 0 < mss (lc_cfg lc) -> LInvB lc st ev -> nse (l_sink st) <= next_seq (l_snd st).
+Proof.
+  intros Hm B. destruct (lb_sink _ _ _ B) as (hist & _ & Hp & Hf).
+  eapply prefix_le_bound; [exact Hp|apply B|]. intros g Hg. rewrite Forall_forall in Hf.
+  destruct (Hf g Hg) as (Hs & _ & Hle). rewrite Hs. exact Hle.
+Qed.
+
+Lemma seg_ok_mono c s s' id : next_seq s <= next_seq s' -> seg_ok c s id -> seg_ok c s' id.
+Proof. unfold seg_ok. lia. Qed.
+
+Lemma segs_tx_in m id n r i z : In (Tx i z) (segs m id n r) -> In i (seg_ids m id n).
+Proof.
+  revert id. induction n as [|n IH]; intros id; cbn [segs seg_ids In]; [tauto|].
+  intros [H|[H|H]]; [injection H as <- _; left; reflexivity|discriminate|right; eauto].
+Qed.
+
+(* what a sender transition does to next_seq, to the ids in flight, to last_ack; what it transmits *)
+Lemma step_seg c s e s' o :
+  0 < mss c -> 0 <= dupack s -> 0 <= next_seq s -> Forall (seg_ok c s) (sent s) ->
+  step repaired c s e = Ok s' o ->
+  next_seq s <= next_seq s' /\ Forall (seg_ok c s') (sent s') /\
+  (forall id z, In (Tx id z) o -> seg_ok c s' id) /\
+  (last_ack s' = last_ack s \/ exists ackno pid sample orc, e = EAck ackno pid sample orc /\ last_ack s' = ackno).
+Proof.
+  intros Hm Hd H0 Hs H. destruct e as [ackno pid sample orc|id| |]; cbn [step] in H.
+  - apply on_ack_shape in H; [|exact Hd]. destruct H as (N & _ & _ & _ & _ & [D|Nw]).
+    + destruct D as (_ & L & _ & _ & S & _ & _ & _ & _ & _ & O).
+      split; [lia|]. split; [rewrite S; eapply Forall_impl; [|exact Hs]; intros i; apply seg_ok_mono; lia|].
+      split; [|left; exact L].
+      intros i z Hin. destruct O as [->|(-> & Hi & _)]; [destruct Hin|].
+      destruct Hin as [E|[]]. injection E as <- _. rewrite Forall_forall in Hs. eapply seg_ok_mono; [|apply Hs, Hi]. lia.
+    + destruct Nw as (_ & L & _ & _ & S & O & _).
+      split; [lia|]. split.
+      * rewrite S. apply Forall_forall. intros i Hi. apply filter_In in Hi as [Hi _]. rewrite Forall_forall in Hs.
+        eapply seg_ok_mono; [|apply Hs, Hi]. lia.
+      * split; [|right; exists ackno, pid, sample, orc; auto].
+        intros i z Hin. rewrite O in Hin. apply in_map_iff in Hin as (? & ? & _). discriminate.
+  - apply on_timer_shape in H as (_ & -> & O). proj. split; [lia|]. split; [exact Hs|]. split; [|left; reflexivity].
+    intros i z Hin. destruct O as [->|(-> & Hi)].
+    + destruct Hin as [E|[]]; discriminate.
+    + destruct Hin as [E|[E|[]]]; [|discriminate]. injection E as <- _. rewrite Forall_forall in Hs. apply Hs, Hi.
+  - apply on_storecb_shape in H as (-> & p & _ & [(_ & _ & ->)|(_ & ->)]); proj; (split; [lia|]); (split; [exact Hs|]); (split; [intros ? ? []|left; reflexivity]).
+  - apply send_guard in H; [|exact Hm]. destruct H as (n & -> & Hns & _ & Hse & _ & Hla & _). proj.
+    assert (Hle : next_seq s <= next_seq s') by nia.
+    assert (Hnew : forall i, In i (seg_ids (mss c) (next_seq s) n) -> seg_ok c s' i).
+    { intros i Hi. apply seg_ids_In in Hi as (k & Hk & ->). unfold seg_ok. rewrite Hns. nia. }
+    split; [exact Hle|]. split; [|split; [|left; exact Hla]].
+    + rewrite Hse. apply Forall_app. split.
+      * eapply Forall_impl; [|exact Hs]. intros i. apply seg_ok_mono. exact Hle.
+      * apply Forall_forall. exact Hnew.
+    + intros i z Hin. cbn [app] in Hin. apply Hnew. eapply segs_tx_in; eauto.
+Qed.
+
+Lemma acount_zero p l : acount p l = O -> forall a, In a l -> p (ae_ev a) = false.
+Proof.
+  unfold acount. induction l as [|x l IH]; cbn [filter]; intros H a Ha; [destruct Ha|].
+  destruct (p (ae_ev x)) eqn:E; [cbn [length] in H; lia|]. destruct Ha as [<-|Ha]; [exact E|apply IH; assumption].
+Qed.
+
+Lemma sortedZ_app_max l x : sortedZ l -> Forall (fun y => y <= x) l -> sortedZ (l ++ [x]).
+Proof.
+  induction l as [|y l IH]; cbn [sortedZ app]; [intros _ _; split; [constructor|exact Logic.I]|].
+  intros [Hy Hl] Hf. inversion Hf as [|? ? Hyx Hf']; subst. split; [|apply IH; assumption].
+  apply Forall_app. split; [exact Hy|]. constructor; [exact Hyx|constructor].
+Qed.
+
+Definition plain_ev (e : aev) : Prop := ackno_of e = None /\ dataid_of e = None /\ is_initA e = false.
+
+Lemma out_ev_plain2 o e : out_ev o e -> plain_ev e.
+Proof. intros [->|[(id & r & -> & _)|(id & r & -> & _)]]; repeat split. Qed.
+
+Lemma sev_extra_plain s s' e x : In x (sev_extra s s' e) -> plain_ev x.
+Proof.
+  unfold sev_extra. intros H. apply in_app_or in H as [H|H].
+  - destruct (pend s <? pend s')%nat; [destruct H as [<-|[]]; repeat split|destruct H].
+  - destruct (wake s' && _); [destruct H as [<-|[]]; repeat split|destruct H].
+Qed.
+
+Lemma plain_counts l : Forall plain_ev l -> ecount is_holdA l = O /\ ecount is_initA l = O.
+Proof.
+  intros H. split; apply ecount_zero; eapply Forall_impl; try exact H; intros e (A & _ & C); [|exact C].
+  unfold is_holdA. rewrite A. reflexivity.
+Qed.
+
+Lemma sender_event_B lc st e ev st' :
+  lc_ok lc -> LInvA lc st (Some ev) -> LInvB lc st (Some ev) -> enabled (l_snd st) e ->
+  (match e with
+   | EAck ackno _ _ _ => ackno_of ev = Some ackno
+   | _ => plain_ev ev
+   end) ->
+  sender_event lc st e = inl st' -> LInvB lc st' (if is_holdA ev then Some (AWireInit true) else None).
+Proof.
+  intros [Hfx Hm Hdl] HA HB He Hev Hse.
+  destruct (sender_event_spec lc st e Hfx Hm (la_sinv _ _ _ HA) He) as
+      (st2 & s' & o & Hse2 & Hstep & Hsn & Hn & Hsk & Hwa & Hor & (evs & Ha & Hf & _ & _) & (l & Hl & Hl') & Hw & Hpm).
+  rewrite Hse in Hse2. injection Hse2 as <-.
+  destruct HB as [Bns Bsent (hist & Bi & Bp & Bh) Bwd Bevd Beva Bwa Bsort Bctl Bla].
+  destruct (step_seg _ _ _ _ _ Hm (proj1 (proj2 (si_win _ _ (la_sinv _ _ _ HA)))) Bns Bsent Hstep) as (Sns & Ssent & Stx & Sla).
+  assert (NS : next_seq (l_snd st') = next_seq s') by (rewrite Hsn; reflexivity).
+  assert (SE : sent (l_snd st') = sent s') by (rewrite Hsn; reflexivity).
+  assert (LA : last_ack (l_snd st') = last_ack s') by (rewrite Hsn; reflexivity).
+  assert (Mono : forall id, seg_ok (lc_cfg lc) (l_snd st) id -> seg_ok (lc_cfg lc) (l_snd st') id).
+  { intros id. unfold seg_ok. rewrite NS. lia. }
+  assert (OK' : forall id, seg_ok (lc_cfg lc) s' id -> seg_ok (lc_cfg lc) (l_snd st') id).
+  { intros id. unfold seg_ok. rewrite NS. auto. }
+  assert (Pl : Forall plain_ev (evs ++ sev_extra (l_snd st) (norm_sender s') e)).
+  { apply Forall_app. split; [eapply Forall_impl; [|exact Hf]; apply out_ev_plain2|].
+    apply Forall_forall. intros x. apply sev_extra_plain. }
+  (* events of st' are old agenda events or plain new ones *)
+  assert (Old : forall x, has_ev st' (if is_holdA ev then Some (AWireInit true) else None) x ->
+                          (exists a, In a (l_agenda st) /\ ae_ev a = x) \/ (ackno_of x = None /\ dataid_of x = None)).
+  { intros x [H|(a & Hin & <-)]; [destruct (is_holdA ev); [injection H as <-; right; split; reflexivity|discriminate]|].
+    destruct (Adds_In_new _ _ _ _ _ Ha Hin) as [H|[H _]]; [left; eauto|right].
+    rewrite Forall_forall in Pl. destruct (Pl _ H) as (P1 & P2 & _). split; assumption. }
+  (* the new last_ack is bounded by the sink's prefix and by everything still in the ACK pipeline *)
+  assert (LAok : last_ack s' <= nse (l_sink st) /\ Forall (fun r => last_ack s' <= a_no r) (wa_items (l_wa st)) /\
+                 last_ack (l_snd st) <= last_ack s').
+  { destruct Sla as [E|(ackno & pid & sample & orc & -> & E)].
+    - rewrite E. split; [exact Bla|]. split; [|lia]. eapply Forall_impl; [|exact Bwa]. intros r; cbn beta; lia.
+    - rewrite E. destruct (Beva ev ackno (or_introl eq_refl) Hev) as [[A1 A2] A3]. auto. }
+  destruct LAok as (LA1 & LA2 & LA3).
+  assert (NoHold : forall a0, In a0 (l_agenda st) -> ackno_of (ae_ev a0) = None \/ (exists k, ackno_of (ae_ev a0) = Some k /\ ackno_of ev = None)).
+  { intros a0 Hin. destruct (ackno_of (ae_ev a0)) as [k|] eqn:E; [|left; reflexivity]. right. exists k. split; [reflexivity|].
+    destruct (ackno_of ev) as [k'|] eqn:E'; [|reflexivity]. exfalso.
+    assert (H1 : is_holdA ev = true) by (unfold is_holdA; rewrite E'; reflexivity).
+    assert (H2 : is_holdA (ae_ev a0) = true) by (unfold is_holdA; rewrite E; reflexivity).
+    assert (H3 : (1 <= acount is_holdA (l_agenda st))%nat).
+    { unfold acount. apply in_split in Hin as (l1 & l2 & ->). rewrite filter_app, app_length. cbn [filter]. rewrite H2. cbn [length]. lia. }
+    cbn [opt_count] in Bctl. rewrite H1 in Bctl. cbn [b2n] in Bctl. lia. }
+  constructor.
+  - rewrite NS. lia.
+  - rewrite SE. eapply Forall_impl; [|exact Ssent]. exact OK'.
+  - rewrite Hsk. exists hist. split; [exact Bi|]. split; [exact Bp|].
+    eapply Forall_impl; [|exact Bh]. intros g [G1 G2]. split; [exact G1|apply Mono, G2].
+  - rewrite Hl. apply Forall_app. split; [eapply Forall_impl; [|exact Bwd]; exact Mono|].
+    apply Forall_forall. intros id Hid. destruct (Hl' id Hid) as (z & Hz). apply OK'. eapply Stx; eauto.
+  - intros x id Hx Hd. destruct (Old x Hx) as [(a & Hin & <-)|(_ & P)]; [|congruence].
+    apply Mono. eapply Bevd; [right; eauto|exact Hd].
+  - intros x a Hx Hk. destruct (Old x Hx) as [(a0 & Hin & <-)|(P & _)]; [|congruence].
+    rewrite Hsk, Hwa, LA.
+    destruct (NoHold a0 Hin) as [E|(k & E & Enone)]; [congruence|].
+    (* the processed entry was not an ACK in the pipeline: last_ack unchanged *)
+    assert (Esame : last_ack s' = last_ack (l_snd st)).
+    { destruct Sla as [E1|(ackno & pid & sample & orc & -> & E1)]; [exact E1|]. cbn beta iota in Hev. congruence. }
+    rewrite Esame. eapply Beva; [right; eauto|exact Hk].
+  - rewrite Hwa, Hsk, LA. apply Forall_forall. intros r Hr. rewrite Forall_forall in Bwa, LA2.
+    specialize (Bwa r Hr). specialize (LA2 r Hr). cbn beta in *. lia.
+  - rewrite Hwa. exact Bsort.
+  - rewrite Hwa. rewrite (Adds_count _ _ _ _ is_holdA Ha), (Adds_count _ _ _ _ is_initA Ha).
+    destruct (plain_counts _ Pl) as [-> ->]. cbn [opt_count] in *.
+    assert (Z1 : is_initA ev = false /\ (is_holdA ev = false \/ exists k, ackno_of ev = Some k)).
+    { destruct e; cbn beta iota in Hev.
+      - split; [destruct ev; try discriminate; reflexivity|right; eauto].
+      - destruct Hev as (A & _ & C). split; [exact C|left; unfold is_holdA; rewrite A; reflexivity].
+      - destruct Hev as (A & _ & C). split; [exact C|left; unfold is_holdA; rewrite A; reflexivity].
+      - destruct Hev as (A & _ & C). split; [exact C|left; unfold is_holdA; rewrite A; reflexivity]. }
+    destruct Z1 as [Zi [Zh|(k & Zk)]].
+    + rewrite Zh in *. rewrite Zi in Bctl. cbn [b2n opt_count] in *. lia.
+    + assert (Zh : is_holdA ev = true) by (unfold is_holdA; rewrite Zk; reflexivity).
+      rewrite Zh in *. rewrite Zi in Bctl. cbn [b2n opt_count is_holdA is_initA ackno_of] in *. lia.
+  - rewrite Hsk, LA. exact LA1.
+Qed.
+
+Lemma has_ev_sched st t p e evo x :
+  has_ev (sched st t p e) evo x -> x = e \/ has_ev st evo x.
+Proof.
+  intros [H|(a & Hin & <-)]; [right; left; exact H|]. unfold sched in Hin; lproj.
+  apply ainsert_In in Hin as [->|Hin]; [left; reflexivity|right; right; eauto].
+Qed.
+
+(* adding an entry that carries no packet *)
+Lemma sched_B_plain lc st t p e evo : plain_ev e -> LInvB lc st evo -> LInvB lc (sched st t p e) evo.
+Proof.
+  intros (P1 & P2 & P3) [Bns Bsent Bsk Bwd Bevd Beva Bwa Bsort Bctl Bla]. constructor; lproj; auto.
+  - intros x id Hx Hd. apply has_ev_sched in Hx as [->|Hx]; [congruence|eauto].
+  - intros x a Hx Hk. apply has_ev_sched in Hx as [->|Hx]; [congruence|eauto].
+  - assert (Hh : is_holdA e = false) by (unfold is_holdA; rewrite P1; reflexivity).
+    rewrite !ainsert_count. cbn [ae_ev]. rewrite P3, Hh. exact Bctl.
+Qed.
+
+(* the processed entry carried nothing: forget it *)
+Lemma B_done lc st ev : plain_ev ev -> LInvB lc st (Some ev) -> LInvB lc st None.
+Proof.
+  intros (P1 & P2 & P3) [Bns Bsent Bsk Bwd Bevd Beva Bwa Bsort Bctl Bla]. constructor; auto.
+  - intros x id [H|H] Hd; [discriminate|]. eapply Bevd; [right; exact H|exact Hd].
+  - intros x a [H|H] Hk; [discriminate|]. eapply Beva; [right; exact H|exact Hk].
+  - assert (Hh : is_holdA ev = false) by (unfold is_holdA; rewrite P1; reflexivity).
+    cbn [opt_count] in *. rewrite P3, Hh in Bctl. cbn [b2n] in Bctl. lia.
+Qed.
+
+(* the packet of the processed entry moves to a new entry (end of the propagation delay) *)
+Lemma sched_B_move lc st t p ev e :
+  ackno_of e = ackno_of ev -> dataid_of e = dataid_of ev -> is_initA e = false -> is_initA ev = false ->
+  LInvB lc st (Some ev) -> LInvB lc (sched st t p e) None.
+Proof.
+  intros E1 E2 E3 E4 [Bns Bsent Bsk Bwd Bevd Beva Bwa Bsort Bctl Bla]. constructor; lproj; auto.
+  - intros x id Hx Hd. apply has_ev_sched in Hx as [->|[H|H]]; [|discriminate|].
+    + eapply Bevd; [left; reflexivity|congruence].
+    + eapply Bevd; [right; exact H|exact Hd].
+  - intros x a Hx Hk. apply has_ev_sched in Hx as [->|[H|H]]; [|discriminate|].
+    + eapply Beva; [left; reflexivity|congruence].
+    + eapply Beva; [right; exact H|exact Hk].
+  - assert (Hh : is_holdA e = is_holdA ev) by (unfold is_holdA; rewrite E1; reflexivity).
+    rewrite !ainsert_count. cbn [ae_ev opt_count] in *. rewrite E3, Hh. rewrite E4 in Bctl. destruct (is_holdA ev); cbn [b2n] in *; lia.
+Qed.
+
+Lemma wd_get_B lc st : LInvB lc st None -> LInvB lc (wd_get st) None.
+Proof.
+  intros HB. unfold wd_get. destruct (wd_items (l_wd st)) as [|x rest] eqn:E.
+  - destruct HB as [Bns Bsent Bsk Bwd Bevd Beva Bwa Bsort Bctl Bla]. constructor; lproj; auto.
+  - destruct HB as [Bns Bsent Bsk Bwd Bevd Beva Bwa Bsort Bctl Bla]. rewrite E in Bwd.
+    inversion Bwd as [|? ? Hx Hrest]; subst. constructor; lproj; auto.
+    + intros y id Hy Hd. apply has_ev_sched in Hy as [->|[H|H]]; [|discriminate|].
+      * cbn [dataid_of] in Hd. injection Hd as <-. exact Hx.
+      * eapply Bevd; [right; exact H|exact Hd].
+    + intros y a Hy Hk. apply has_ev_sched in Hy as [->|[H|H]]; [discriminate|discriminate|].
+      eapply Beva; [right; exact H|exact Hk].
+    + rewrite !ainsert_count. cbn [ae_ev is_holdA is_initA ackno_of b2n]. exact Bctl.
+Qed.
+
+Lemma sortedZ_head_le x l : sortedZ (x :: l) -> Forall (fun y => x <= y) l /\ sortedZ l.
+Proof. cbn [sortedZ]. tauto. Qed.
+
+(* the ACK wire's process asks its store for the next packet; it has the control token (it was just
+   initialised / just delivered a packet) or it was waiting and a put callback serves it *)
+Lemma wa_get_B lc st evo :
+  (evo = Some (AWireInit true) \/ (wa_waiting (l_wa st) = true /\ evo = Some (AWirePutCb true))) ->
+  LInvB lc st evo -> LInvB lc (wa_get st) None.
+Proof.
+  intros Hctl [Bns Bsent Bsk Bwd Bevd Beva Bwa Bsort Bctl Bla].
+  assert (Hcnt : (acount is_holdA (l_agenda st) + acount is_initA (l_agenda st))%nat = O).
+  { destruct Hctl as [->|[Hw ->]]; cbn [opt_count is_holdA is_initA ackno_of b2n] in Bctl; [|rewrite Hw in Bctl; cbn [b2n] in Bctl]; lia. }
+  assert (Hold : forall y, has_ev st evo y -> ackno_of y = None \/ exists a0, In a0 (l_agenda st) /\ ae_ev a0 = y).
+  { intros y [H|H]; [|right; exact H]. left. destruct Hctl as [->|[_ ->]]; injection H as <-; reflexivity. }
+  assert (Hevd : forall y id, has_ev st None y -> dataid_of y = Some id -> seg_ok (lc_cfg lc) (l_snd st) id).
+  { intros y id [H|H] Hd; [discriminate|]. eapply Bevd; [right; exact H|exact Hd]. }
+  unfold wa_get. destruct (wa_items (l_wa st)) as [|x rest] eqn:E.
+  - constructor; lproj; auto.
+    + intros y a [H|H] Hk; [discriminate|]. destruct (Beva y a (or_intror H) Hk) as [A _]. split; [exact A|constructor].
+    + cbn [opt_count b2n]. lia.
+  - inversion Bwa as [|? ? Hx Hrest]; subst. cbn [map] in Bsort. apply sortedZ_head_le in Bsort as [Hle Hs].
+    constructor; lproj; auto.
+    + intros y id Hy Hd. apply has_ev_sched in Hy as [->|Hy]; [discriminate|eauto].
+    + intros y a Hy Hk. apply has_ev_sched in Hy as [->|[H|(a0 & Hin & <-)]]; [|discriminate|].
+      * cbn [ackno_of] in Hk. injection Hk as <-. split; [exact Hx|].
+        apply Forall_forall. intros r Hr. rewrite Forall_forall in Hle. apply Hle. apply in_map. exact Hr.
+      * exfalso. assert (Hz : acount is_holdA (l_agenda st) = O) by lia.
+        pose proof (acount_zero _ _ Hz a0 Hin) as Hf. unfold is_holdA in Hf. rewrite Hk in Hf. discriminate.
+    + rewrite !ainsert_count. cbn [ae_ev is_holdA is_initA ackno_of b2n opt_count]. lia.
+Qed.
+
+Lemma deliver_data_B lc st ev id st' :
+  0 < mss (lc_cfg lc) -> dataid_of ev = Some id -> LInvB lc st (Some ev) ->
+  deliver_data lc st id = inl st' -> LInvB lc st' None.
+Proof.
+  intros Hm Hid [Bns Bsent (hist & Bi & Bp & Bh) Bwd Bevd Beva Bwa Bsort Bctl Bla] H.
+  assert (Hseg : seg_ok (lc_cfg lc) (l_snd st) id) by (eapply Bevd; [left; reflexivity|exact Hid]).
+  assert (Hev : ackno_of ev = None /\ is_initA ev = false /\ is_holdA ev = false).
+  { destruct ev; try discriminate; repeat split. }
+  destruct Hev as (Ev1 & Ev2 & Ev3).
+  unfold deliver_data in H. destruct (pkt_get id (l_pkt st)) as [[tm ct]|]; [|discriminate].
+  set (sk := sink_step true (l_sink st) (id, mss (lc_cfg lc))) in *.
+  assert (Bi' : Inv (hist ++ [(id, mss (lc_cfg lc))]) sk).
+  { apply Inv_step; cbn [fst snd]; [apply Hseg|lia|exact Bi]. }
+  assert (Bp' : prefix_len (hist ++ [(id, mss (lc_cfg lc))]) (nse sk)).
+  { apply (ack_prefix _ sk id (mss (lc_cfg lc))) in Bi'. exact Bi'. }
+  assert (Hmono : nse (l_sink st) <= nse sk).
+  { eapply prefix_len_mono; [|exact Bp|exact Bp']. intros x Hx. apply covered_app. left. exact Hx. }
+  assert (Bh' : Forall (fun g => snd g = mss (lc_cfg lc) /\ seg_ok (lc_cfg lc) (l_snd st) (fst g)) (hist ++ [(id, mss (lc_cfg lc))])).
+  { apply Forall_app. split; [exact Bh|]. constructor; [split; [reflexivity|exact Hseg]|constructor]. }
+  assert (Hevd : forall y i, (exists a0, In a0 (l_agenda st) /\ ae_ev a0 = y) -> dataid_of y = Some i -> seg_ok (lc_cfg lc) (l_snd st) i).
+  { intros y i Hy Hd. eapply Bevd; [right; exact Hy|exact Hd]. }
+  assert (Heva : forall y a, (exists a0, In a0 (l_agenda st) /\ ae_ev a0 = y) -> ackno_of y = Some a ->
+                             last_ack (l_snd st) <= a <= nse sk /\ Forall (fun r => a <= a_no r) (wa_items (l_wa st)) /\ a <= nse sk).
+  { intros y a Hy Hk. destruct (Beva y a (or_intror Hy) Hk) as [[A1 A2] A3]. repeat split; try assumption; lia. }
+  assert (Bwa' : Forall (fun r => last_ack (l_snd st) <= a_no r <= nse sk) (wa_items (l_wa st))).
+  { eapply Forall_impl; [|exact Bwa]. intros r; cbn beta; lia. }
+  assert (Bctl' : (acount is_holdA (l_agenda st) + acount is_initA (l_agenda st) + b2n (wa_waiting (l_wa st)))%nat = 1%nat).
+  { cbn [opt_count] in Bctl. rewrite Ev2, Ev3 in Bctl. cbn [b2n] in Bctl. lia. }
+  clearbody sk.
+  destruct (existsb (Nat.eqb (l_n2 st)) (lc_drop_ack lc)); injection H as <-.
+  - constructor; lproj; auto.
+    + exists (hist ++ [(id, mss (lc_cfg lc))]). auto.
+    + intros y i [Hy|Hy] Hd; [discriminate|]. eapply Hevd; eauto.
+    + intros y a [Hy|Hy] Hk; [discriminate|]. destruct (Heva y a Hy Hk) as (A & B & _). split; assumption.
+    + cbn [opt_count]. lia.
+    + lia.
+  - constructor; lproj; auto.
+    + exists (hist ++ [(id, mss (lc_cfg lc))]). auto.
+    + intros y i Hy Hd. apply has_ev_sched in Hy as [->|[Hy|Hy]]; [discriminate|discriminate|]. eapply Hevd; eauto.
+    + intros y a Hy Hk. apply has_ev_sched in Hy as [->|[Hy|Hy]]; [discriminate|discriminate|].
+      destruct (Heva y a Hy Hk) as (A & B & C). split; [exact A|].
+      apply Forall_app. split; [exact B|]. constructor; [exact C|constructor].
+    + apply Forall_app. split; [exact Bwa'|]. constructor; [cbn [a_no]; lia|constructor].
+    + rewrite map_app. cbn [map a_no]. apply sortedZ_app_max; [exact Bsort|].
+      apply Forall_forall. intros y Hy. apply in_map_iff in Hy as (r & <- & Hr). rewrite Forall_forall in Bwa'. apply Bwa', Hr.
+    + rewrite !ainsert_count. cbn [ae_ev is_holdA is_initA ackno_of b2n opt_count]. lia.
+    + lia.
+Qed.
+
+Lemma pop_B lc st a rest :
+  LInvB lc st None -> l_agenda st = a :: rest -> LInvB lc (popped st a rest) (Some (ae_ev a)).
+Proof.
+  intros [Bns Bsent Bsk Bwd Bevd Beva Bwa Bsort Bctl Bla] E.
+  assert (Hev : forall x, has_ev (popped st a rest) (Some (ae_ev a)) x -> has_ev st None x).
+  { intros x [H|(a0 & Hin & <-)]; right; rewrite E.
+    - injection H as <-. exists a. split; [left; reflexivity|reflexivity].
+    - exists a0. split; [right; exact Hin|reflexivity]. }
+  constructor; unfold popped; lproj; auto.
+  - intros x id Hx. apply Bevd. apply Hev. exact Hx.
+  - intros x k Hx. apply Beva. apply Hev. exact Hx.
+  - rewrite E in Bctl. unfold acount in *. cbn [filter opt_count] in *.
+    destruct (is_holdA (ae_ev a)); destruct (is_initA (ae_ev a)); cbn [length b2n] in *; lia.
+Qed.
+
+Lemma handle_B lc st ev st' :
+  lc_ok lc -> LInvA lc st (Some ev) -> LInvB lc st (Some ev) ->
+  handle lc st ev = inl st' -> LInvB lc st' None.
+Proof.
+  intros Hok HA HB H. pose proof Hok as [Hfx Hm Hd].
+  destruct ev as [| |id|id|w|w|id|id|ackno pid tm ct|ackno pid tm ct]; cbn [handle] in H.
+  - apply (sender_event_B lc st EWake ASenderWake st' Hok HA HB) in H; [exact H| |repeat split].
+    cbn [enabled]. pose proof (la_wake _ _ _ HA) as Hw. cbn [is_wake b2n] in Hw. destruct (wake (l_snd st)); [reflexivity|cbn [b2n] in Hw; lia].
+  - apply (sender_event_B lc st EStoreCb ASenderCb st' Hok HA HB) in H; [exact H| |repeat split].
+    cbn [enabled]. pose proof (la_cb _ _ _ HA) as Hc. cbn [is_cb b2n] in Hc. lia.
+  - assert (B0 : LInvB lc st None) by (eapply B_done; [|exact HB]; repeat split).
+    destruct (find (fun p => fst p =? id) (timers (l_snd st))) as [[k r]|]; injection H as <-; [|exact B0].
+    apply sched_B_plain; [repeat split|exact B0].
+  - destruct (has_timer id (timers (l_snd st))) eqn:Eh.
+    + apply (sender_event_B lc st (EExpire id) (ATimerFire id) st' Hok HA HB) in H; [exact H|exact Eh|repeat split].
+    + injection H as <-. eapply B_done; [|exact HB]. repeat split.
+  - destruct w; injection H as <-.
+    + apply (wa_get_B lc st (Some (AWireInit true))); [left; reflexivity|exact HB].
+    + apply wd_get_B. eapply B_done; [|exact HB]. repeat split.
+  - destruct w.
+    + destruct (wa_waiting (l_wa st)) eqn:Ew; injection H as <-.
+      * apply (wa_get_B lc st (Some (AWirePutCb true))); [right; split; [exact Ew|reflexivity]|exact HB].
+      * eapply B_done; [|exact HB]. repeat split.
+    + assert (B0 : LInvB lc st None) by (eapply B_done; [|exact HB]; repeat split).
+      destruct (wd_waiting (l_wd st)); injection H as <-; [apply wd_get_B|]; exact B0.
+  - destruct (pkt_get id (l_pkt st)) as [[tm ct]|]; [|discriminate].
+    destruct (Qltb (l_now st - ct) (lc_delay lc)).
+    + injection H as <-. eapply sched_B_move; [| | | |exact HB]; reflexivity.
+    + destruct (deliver_data lc st id) as [st1|] eqn:D; cbn [bind] in H; [|discriminate]. injection H as <-.
+      apply wd_get_B. eapply deliver_data_B; eauto. reflexivity.
+  - destruct (deliver_data lc st id) as [st1|] eqn:D; cbn [bind] in H; [|discriminate]. injection H as <-.
+    apply wd_get_B. eapply deliver_data_B; eauto. reflexivity.
+  - destruct (Qltb (l_now st - ct) (lc_delay lc)).
+    + injection H as <-. eapply sched_B_move; [| | | |exact HB]; reflexivity.
+    + destruct (deliver_ack lc st ackno pid tm) as [st1|] eqn:D; cbn [bind] in H; [|discriminate]. injection H as <-.
+      unfold deliver_ack in D. set (st0 := mkls _ _ _ _ _ _ _ _ _ _ (tl (l_oracle st)) _ _ _) in D.
+      assert (A0 : LInvA lc st0 (Some (AWireGetA ackno pid tm ct))).
+      { destruct HA as [Is Iw Ic [Ts Tf Tpk Tw Te Td Tk]]. constructor; subst st0; lproj; auto. constructor; lproj; auto. }
+      assert (B0 : LInvB lc st0 (Some (AWireGetA ackno pid tm ct))).
+      { destruct HB as [Bns Bsent Bsk Bwd Bevd Beva Bwa Bsort Bctl Bla]. constructor; subst st0; lproj; auto. }
+      apply (sender_event_B lc st0 _ (AWireGetA ackno pid tm ct) st1 Hok A0 B0) in D; [|exact Logic.I|reflexivity].
+      apply (wa_get_B lc st1 (Some (AWireInit true))); [left; reflexivity|exact D].
+  - destruct (deliver_ack lc st ackno pid tm) as [st1|] eqn:D; cbn [bind] in H; [|discriminate]. injection H as <-.
+    unfold deliver_ack in D. set (st0 := mkls _ _ _ _ _ _ _ _ _ _ (tl (l_oracle st)) _ _ _) in D.
+    assert (A0 : LInvA lc st0 (Some (AWireOutA ackno pid tm ct))).
+    { destruct HA as [Is Iw Ic [Ts Tf Tpk Tw Te Td Tk]]. constructor; subst st0; lproj; auto. constructor; lproj; auto. }
+    assert (B0 : LInvB lc st0 (Some (AWireOutA ackno pid tm ct))).
+    { destruct HB as [Bns Bsent Bsk Bwd Bevd Beva Bwa Bsort Bctl Bla]. constructor; subst st0; lproj; auto. }
+    apply (sender_event_B lc st0 _ (AWireOutA ackno pid tm ct) st1 Hok A0 B0) in D; [|exact Logic.I|reflexivity].
+    apply (wa_get_B lc st1 (Some (AWireInit true))); [left; reflexivity|exact D].
+Qed.
+
+Lemma linit_B lc cw ss rtt0 orc : LInvB lc (linit cw ss rtt0 orc) None.
+Proof.
+  constructor; unfold linit, init; lproj; proj.
+  - lia.
+  - constructor.
+  - exists []. split; [apply Inv_init|]. split; [|constructor].
+    unfold prefix_len, sink0; cbn [nse]. split; [lia|]. split; [intros b Hb; lia|]. intros (g & [] & _).
+  - constructor.
+  - intros e id [H|(a & Hin & <-)] Hd; [discriminate|].
+    cbn [In] in Hin. destruct Hin as [<-|[<-|[<-|[]]]]; discriminate.
+  - intros e k [H|(a & Hin & <-)] Hd; [discriminate|].
+    cbn [In] in Hin. destruct Hin as [<-|[<-|[<-|[]]]]; discriminate.
+  - constructor.
+  - exact Logic.I.
+  - reflexivity.
+  - unfold sink0; cbn [nse]. lia.
+Qed.
+
+Record LInvAB (lc : lcfg) (st : lstate) : Prop := { ab_A : LInvA lc st None; ab_B : LInvB lc st None }.
+
+Lemma lstep_AB lc st st' : lc_ok lc -> LInvAB lc st -> lstep lc st = Some (inl st') -> LInvAB lc st'.
+Proof.
+  intros Hok [HA HB] H. pose proof H as H0. unfold lstep in H0. destruct (l_agenda st) as [|a rest] eqn:E; [discriminate|].
+  injection H0 as H0. fold (popped st a rest) in H0.
+  destruct (pop_A lc st a rest HA E) as (P1 & P2 & P3 & P4).
+  destruct (handle_A lc (popped st a rest) (ae_ev a) Hok P1 P2 P3) as (st2 & H1 & H2 & H3).
+  rewrite H1 in H0. injection H0 as <-. constructor; [exact H2|].
+  eapply handle_B; eauto. apply pop_B; assumption.
+Qed.
+
+Lemma reach_AB lc cw ss rtt0 orc st :
+  lc_ok lc -> (zq (mss (lc_cfg lc)) <= cw)%Q -> (0 < rtt0)%Q ->
+  lreach lc (linit cw ss rtt0 orc) st -> LInvAB lc st.
+Proof.
+  intros Hok Hc Hr. induction 1 as [|st st' Hreach IH Hstep].
+  - constructor; [apply linit_A; assumption|apply linit_B].
+  - eapply lstep_AB; eauto.
+Qed.
+
+(* the contiguous prefix held by the sink, read off its receive buffer *)
+Definition sink_prefix (sk : sink) (n : Z) : Prop :=
+  0 <= n /\ (forall b, 0 <= b < n -> cov (buf sk) b) /\ ~ cov (buf sk) n.
+
+Theorem loop_last_ack_le_prefix_le_next_seq lc cw ss rtt0 orc st :
+  lc_ok lc -> (zq (mss (lc_cfg lc)) <= cw)%Q -> (0 < rtt0)%Q ->
+  lreach lc (linit cw ss rtt0 orc) st ->
+  last_ack (l_snd st) <= nse (l_sink st) <= next_seq (l_snd st) /\ sink_prefix (l_sink st) (nse (l_sink st)).
+Proof.
+  intros Hok Hc Hr H. destruct (reach_AB lc cw ss rtt0 orc st Hok Hc Hr H) as [_ HB].
+  split; [split; [apply HB|eapply LInvB_nse_le; [apply Hok|exact HB]]|].
+  destruct (lb_sink _ _ _ HB) as (hist & (_ & _ & Hcov) & (P0 & P1 & P2) & _).
+  split; [exact P0|]. split.
+  - intros b Hb. apply Hcov. apply P1. exact Hb.
+  - intros Hn. apply P2. apply Hcov. exact Hn.
+Qed.
+
+(* ---- last_ack never decreases ---- *)
+Lemma sender_event_la lc st e ev st' :
+  lc_ok lc -> LInvA lc st (Some ev) -> LInvB lc st (Some ev) -> enabled (l_snd st) e ->
+  (match e with EAck ackno _ _ _ => ackno_of ev = Some ackno | _ => True end) ->
+  sender_event lc st e = inl st' -> last_ack (l_snd st) <= last_ack (l_snd st').
+Proof.
+  intros [Hfx Hm Hdl] HA HB He Hev Hse.
+  destruct (sender_event_spec lc st e Hfx Hm (la_sinv _ _ _ HA) He) as (st2 & s' & o & Hse2 & Hstep & Hsn & _).
+  rewrite Hse in Hse2. injection Hse2 as <-. rewrite Hsn. change (last_ack (norm_sender s')) with (last_ack s').
+  destruct (step_seg _ _ _ _ _ Hm (proj1 (proj2 (si_win _ _ (la_sinv _ _ _ HA)))) (lb_ns _ _ _ HB) (lb_sent _ _ _ HB) Hstep) as (_ & _ & _ & Sla).
+  destruct Sla as [E|(ackno & pid & sample & orc & -> & E)]; [lia|]. rewrite E.
+  destruct (lb_eva _ _ _ HB ev ackno (or_introl eq_refl) Hev) as [[A _] _]. exact A.
+Qed.
+
+Lemma wd_get_snd st : l_snd (wd_get st) = l_snd st.
+Proof. unfold wd_get. destruct (wd_items (l_wd st)); reflexivity. Qed.
+Lemma wa_get_snd st : l_snd (wa_get st) = l_snd st.
+Proof. unfold wa_get. destruct (wa_items (l_wa st)); reflexivity. Qed.
+Lemma deliver_data_snd lc st id st' : deliver_data lc st id = inl st' -> l_snd st' = l_snd st.
+Proof.
+  unfold deliver_data. destruct (pkt_get id (l_pkt st)) as [[tm ct]|]; [|discriminate].
+  destruct (existsb _ _); intros H; injection H as <-; reflexivity.
+Qed.
+
+Lemma handle_la_mono lc st ev st' :
+  lc_ok lc -> LInvA lc st (Some ev) -> LInvB lc st (Some ev) ->
+  handle lc st ev = inl st' -> last_ack (l_snd st) <= last_ack (l_snd st').
+Proof.
+  intros Hok HA HB H.
+  destruct ev as [| |id|id|w|w|id|id|ackno pid tm ct|ackno pid tm ct]; cbn [handle] in H.
+  - eapply (sender_event_la lc st EWake); eauto; try exact Logic.I.
+    cbn [enabled]. pose proof (la_wake _ _ _ HA) as Hw. cbn [is_wake b2n] in Hw. destruct (wake (l_snd st)); [reflexivity|cbn [b2n] in Hw; lia].
+  - eapply (sender_event_la lc st EStoreCb); eauto; try exact Logic.I.
+    cbn [enabled]. pose proof (la_cb _ _ _ HA) as Hc. cbn [is_cb b2n] in Hc. lia.
+  - destruct (find _ _) as [[k r]|]; injection H as <-; lproj; lia.
+  - destruct (has_timer id (timers (l_snd st))) eqn:Eh; [|injection H as <-; lia].
+    eapply (sender_event_la lc st (EExpire id)); eauto; try exact Logic.I.
+  - destruct w; injection H as <-; rewrite ?wa_get_snd, ?wd_get_snd; lia.
+  - destruct w; [destruct (wa_waiting _)|destruct (wd_waiting _)]; injection H as <-; rewrite ?wa_get_snd, ?wd_get_snd; lia.
+  - destruct (pkt_get id (l_pkt st)) as [[tm ct]|]; [|discriminate].
+    destruct (Qltb _ _); [injection H as <-; lproj; lia|].
+    destruct (deliver_data lc st id) as [st1|] eqn:D; cbn [bind] in H; [|discriminate]. injection H as <-.
+    rewrite wd_get_snd, (deliver_data_snd _ _ _ _ D). lia.
+  - destruct (deliver_data lc st id) as [st1|] eqn:D; cbn [bind] in H; [|discriminate]. injection H as <-.
+    rewrite wd_get_snd, (deliver_data_snd _ _ _ _ D). lia.
+  - destruct (Qltb _ _); [injection H as <-; lproj; lia|].
+    destruct (deliver_ack lc st ackno pid tm) as [st1|] eqn:D; cbn [bind] in H; [|discriminate]. injection H as <-.
+    rewrite wa_get_snd. unfold deliver_ack in D. set (st0 := mkls _ _ _ _ _ _ _ _ _ _ (tl (l_oracle st)) _ _ _) in D.
+    assert (A0 : LInvA lc st0 (Some (AWireGetA ackno pid tm ct))).
+    { destruct HA as [Is Iw Ic [Ts Tf Tpk Tw Te Td Tk]]. constructor; subst st0; lproj; auto. constructor; lproj; auto. }
+    assert (B0 : LInvB lc st0 (Some (AWireGetA ackno pid tm ct))).
+    { destruct HB as [Bns Bsent Bsk Bwd Bevd Beva Bwa Bsort Bctl Bla]. constructor; subst st0; lproj; auto. }
+    apply (sender_event_la lc st0 _ (AWireGetA ackno pid tm ct) st1 Hok A0 B0) in D; [exact D|exact Logic.I|reflexivity].
+  - destruct (deliver_ack lc st ackno pid tm) as [st1|] eqn:D; cbn [bind] in H; [|discriminate]. injection H as <-.
+    rewrite wa_get_snd. unfold deliver_ack in D. set (st0 := mkls _ _ _ _ _ _ _ _ _ _ (tl (l_oracle st)) _ _ _) in D.
+    assert (A0 : LInvA lc st0 (Some (AWireOutA ackno pid tm ct))).
+    { destruct HA as [Is Iw Ic [Ts Tf Tpk Tw Te Td Tk]]. constructor; subst st0; lproj; auto. constructor; lproj; auto. }
+    assert (B0 : LInvB lc st0 (Some (AWireOutA ackno pid tm ct))).
+    { destruct HB as [Bns Bsent Bsk Bwd Bevd Beva Bwa Bsort Bctl Bla]. constructor; subst st0; lproj; auto. }
+    apply (sender_event_la lc st0 _ (AWireOutA ackno pid tm ct) st1 Hok A0 B0) in D; [exact D|exact Logic.I|reflexivity].
+Qed.
+
+Theorem loop_last_ack_monotone lc cw ss rtt0 orc st st' :
+  lc_ok lc -> (zq (mss (lc_cfg lc)) <= cw)%Q -> (0 < rtt0)%Q ->
+  lreach lc (linit cw ss rtt0 orc) st -> lreach lc st st' ->
+  last_ack (l_snd st) <= last_ack (l_snd st').
+Proof.
+  intros Hok Hc Hr H0 H. induction H as [|s1 s2 Hreach IH Hstep]; [lia|].
+  assert (R1 : lreach lc (linit cw ss rtt0 orc) s1).
+  { clear IH Hstep. induction Hreach as [|a b Hab IHab Hs]; [exact H0|eapply reach_step; eauto]. }
+  destruct (reach_AB lc cw ss rtt0 orc s1 Hok Hc Hr R1) as [HA HB].
+  pose proof Hstep as H1. unfold lstep in H1. destruct (l_agenda s1) as [|a rest] eqn:E; [discriminate|].
+  injection H1 as H1. fold (popped s1 a rest) in H1.
+  destruct (pop_A lc s1 a rest HA E) as (P1 & _).
+  pose proof (pop_B lc s1 a rest HB E) as P2.
+  pose proof (handle_la_mono lc _ _ _ Hok P1 P2 H1) as Hm. unfold popped in Hm; lproj. lia.
+Qed.
+
+(* ================================================================================================ *)
+(* Part 5: an unfinished transfer always has pending work *)
+
+Definition mult (m x : Z) : Prop := exists k, 0 <= k /\ x = k * m.
+
+Lemma fill_steps fuel ns sb p sb' : fill fuel ns sb p = Some sb' -> exists j : nat, sb' = sb + Z.of_nat j * p.
+Proof.
+  revert sb. induction fuel as [|f IH]; intros sb; cbn [fill]; [discriminate|].
+  destruct (sb <=? ns).
+  - intros H. apply IH in H as (j & ->). exists (S j). lia.
+  - intros H; injection H as <-. exists O. lia.
+Qed.
+
+Record SInvC (c : config) (s : sender) : Prop := {
+  sc_mult_ns : mult (mss c) (next_seq s);
+  sc_mult_sb : mult (mss c) (send_buffer s);
+  sc_buf : buffered_ok c s;
+  sc_timers : forall k, 0 <= k -> k * mss c < next_seq s -> last_ack s < k * mss c + mss c -> In (k * mss c) (keys (timers s));
+  sc_wait0 : waiting s = true -> tokens s = O -> last_ack s < next_seq s;
+  sc_wait1 : waiting s = true -> (0 < tokens s)%nat -> (0 < pend s)%nat;
+  sc_ctl : finished s = true \/ waiting s = true \/ wake s = true;
+  sc_fin : finished s = true -> fsize c <> 0 /\ fsize c <= next_seq s
+}.
+
+Lemma mult_gap m a b : 0 < m -> mult m a -> mult m b -> a < b -> a + m <= b.
+Proof. intros Hm (k & Hk & ->) (j & Hj & ->) H. assert (k < j) by nia. nia. Qed.
+
+Lemma send_loop_C c (Hm : 0 < mss c) (Hf : mult (mss c) (fsize c)) : forall fuel s acc s' outs,
+  mult (mss c) (next_seq s) -> mult (mss c) (send_buffer s) -> (zq (mss c) <= cwnd s)%Q ->
+  send_loop fuel c s acc = Ok s' outs ->
+  mult (mss c) (next_seq s') /\ mult (mss c) (send_buffer s') /\
+  (waiting s' = true -> waiting s = false -> last_ack s' < next_seq s') /\
+  (finished s' = true -> finished s = false -> fsize c <> 0 /\ fsize c <= next_seq s').
+Proof.
+  induction fuel as [|f IH]; intros s acc s' outs Mn Mb Hc; cbn [send_loop]; [discriminate|].
+  destruct (negb (fsize c =? 0) && (fsize c <=? next_seq s)) eqn:Efin.
+  - intros H; injection H as <- _. proj. apply andb_true_iff in Efin as [E1 E2]. apply negb_true_iff, Z.eqb_neq in E1. apply Z.leb_le in E2.
+    split; [exact Mn|]. split; [exact Mb|]. split; [discriminate|]. auto.
+  - destruct (fill _ _ _ _) as [sb|] eqn:Efill; [|discriminate].
+    assert (Hp : psize c (next_seq s) = mss c).
+    { unfold psize. destruct (fsize c =? 0) eqn:E0; [reflexivity|]. apply Z.eqb_neq in E0.
+      apply andb_false_iff in Efin as [E|E]; [discriminate|]. apply Z.leb_gt in E.
+      pose proof (mult_gap _ _ _ Hm Mn Hf E). lia. }
+    rewrite Hp in Efill. pose proof (fill_ge _ _ _ _ _ Efill) as Hge.
+    destruct (fill_steps _ _ _ _ _ Efill) as (j & Hj).
+    assert (Msb : mult (mss c) sb).
+    { destruct Mb as (k & Hk & Ek). exists (k + Z.of_nat j). split; [lia|]. rewrite Hj, Ek. ring. }
+    destruct (guard c s sb) eqn:Eg.
+    + destruct (Qle_bool (rto s) 0); [discriminate|]. intros H. apply IH in H; proj; auto.
+      destruct Mn as (k & Hk & Ek). exists (k + 1). split; [lia|]. rewrite Ek. ring.
+    + intros H.
+      assert (Hla : last_ack s < next_seq s).
+      { pose proof (mult_gap _ _ _ Hm Mn Msb Hge) as Hgap.
+        unfold guard in Eg. apply Qle_bool_false in Eg.
+        destruct (Q.min_spec (zq sb) (zq (last_ack s) + cwnd s)%Q) as [[_ Emin]|[_ Emin]]; rewrite Emin in Eg.
+        - apply (zq_le _ _) in Hgap. lra.
+        - assert (Hq : (zq (last_ack s) + zq (mss c) < zq (next_seq s + mss c))%Q) by lra.
+          rewrite <- zq_add in Hq. unfold zq in Hq. rewrite <- Zlt_Qlt in Hq. lia. }
+      destruct (tokens s); injection H as <- _; proj; (split; [exact Mn|]); (split; [exact Msb|]); (split; [|intros A B; congruence]); auto.
+Qed.
+
+Lemma seg_ids_has m id n (j : nat) : (j < n)%nat -> In (id + Z.of_nat j * m) (seg_ids m id n).
+Proof.
+  revert id j. induction n as [|n IH]; intros id j Hj; [lia|]. cbn [seg_ids]. destruct j as [|j].
+  - left. cbn. lia.
+  - right. replace (id + Z.of_nat (S j) * m) with (id + m + Z.of_nat j * m) by lia. apply IH. lia.
+Qed.
+
+Lemma In_keys_filter (f : Z -> bool) t x : In x (keys (filter (fun p => f (fst p)) t)) <-> In x (keys t) /\ f x = true.
+Proof. rewrite keys_filter. apply filter_In. Qed.
+
+Definition ack_fwd (s : sender) (e : event) : Prop :=
+  match e with EAck ackno _ _ _ => last_ack s <= ackno | _ => True end.
+
+Lemma step_C c s e s' o :
+  0 < mss c -> mult (mss c) (fsize c) -> SInv c s -> SInvC c s -> ack_fwd s e ->
+  step repaired c s e = Ok s' o -> SInvC c s'.
+Proof.
+  intros Hm Hf I [Mn Mb Bf Tm W0 W1 Ct Fn] Hfw H.
+  destruct e as [ackno pid sample orc|id| |]; cbn [step] in H.
+  - apply on_ack_shape in H; [|apply I]. destruct H as (N & B & Wk & Wt & F & [D|Nw]).
+    + destruct D as (_ & L & _ & T & _ & _ & _ & _ & Tk & Pd & _).
+      constructor; unfold buffered_ok in *; rewrite ?N, ?B, ?Wk, ?Wt, ?F, ?L, ?T, ?Tk, ?Pd; auto.
+    + destruct Nw as (_ & L & _ & T & _ & _ & _ & _ & _ & Tk & Pd). cbn [ack_fwd] in Hfw.
+      constructor; unfold buffered_ok in *; rewrite ?N, ?B, ?Wk, ?Wt, ?F, ?L, ?Tk, ?Pd; auto; try lia.
+      intros k Hk Hlt Hla. rewrite T.
+      apply (In_keys_filter (fun x => negb (mem x (acked_ids repaired c s ackno pid)))). split; [apply Tm; auto; lia|].
+      apply negb_true_iff. destruct (mem (k * mss c) (acked_ids repaired c s ackno pid)) eqn:E; [|reflexivity]. exfalso.
+      apply mem_In in E. unfold acked_ids, repaired in E; proj.
+      change (map fst (filter (fun p => fst p + mss c <=? ackno) (timers s)))
+        with (keys (filter (fun p => (fun x => x + mss c <=? ackno) (fst p)) (timers s))) in E.
+      apply In_keys_filter in E as [_ E]. apply Z.leb_le in E. lia.
+  - apply on_timer_shape in H as (_ & -> & _). constructor; unfold buffered_ok in *; proj; auto.
+    intros k Hk Hlt Hla. rewrite keys_rearm. auto.
+  - apply on_storecb_shape in H as (_ & p & Hp & [(Wt & Tk & ->)|(Hor & ->)]); constructor; unfold buffered_ok in *; proj; auto; try discriminate.
+    intros Hw Ht. destruct Hor as [Hor|Hor]; [congruence|lia].
+  - pose proof H as H0. unfold on_wake in H0. destruct (wake s && negb (finished s)) eqn:Ew; [|discriminate].
+    apply andb_true_iff in Ew as [Ew Ef]. apply negb_true_iff in Ef.
+    pose proof (send_loop_flags _ _ _ _ _ _ H0) as (Pd & Fl).
+    pose proof (send_loop_buffered c Hm _ (set_store s (tokens s) (pend s) false false) _ _ _ Bf H0) as Bf'.
+    pose proof (send_loop_C c Hm Hf _ (set_store s (tokens s) (pend s) false false) _ _ _ Mn Mb (proj1 (si_win _ _ I)) H0) as (Mn' & Mb' & Wz & Fz). proj.
+    apply send_guard in H; [|exact Hm]. destruct H as (n & _ & Hns & Ht & _ & _ & Hla & _). proj.
+    constructor; auto.
+    + intros k Hk Hlt Hlak. rewrite Ht, keys_app, keys_map_pair. apply in_or_app.
+      destruct (Z_lt_ge_dec (k * mss c) (next_seq s)) as [Hold|Hnew].
+      * left. apply Tm; auto. lia.
+      * right. destruct Mn as (a & Ha & Ea).
+        assert (Hka : a <= k) by nia.
+        replace (k * mss c) with (next_seq s + Z.of_nat (Z.to_nat (k - a)) * mss c) by (rewrite Z2Nat.id by lia; rewrite Ea; ring).
+        apply seg_ids_has. rewrite Hns, Ea in Hlt. assert (k - a < Z.of_nat n) by nia. lia.
+    + intros Hw Ht0. destruct Fl as [(_ & _ & Hx & _)|(_ & [(_ & Hx & _)|(_ & _ & Hx & _)])]; [congruence|congruence|lia].
+    + destruct Fl as [(Hx & _)|(_ & [(Hx & _)|(_ & Hx & _)])]; auto.
+Qed.
+
+Lemma init_C c cw ss rtt0 : 0 < mss c -> mult (mss c) (fsize c) -> SInvC c (init cw ss rtt0).
+Proof.
+  intros Hm (n & Hn & En). constructor; unfold init, buffered_ok; proj.
+  - exists 0. lia.
+  - exists 0. lia.
+  - split; [lia|intros _; nia].
+  - intros k Hk Hlt. nia.
+  - discriminate.
+  - discriminate.
+  - right; right; reflexivity.
+  - discriminate.
+Qed.
+
+Lemma norm_C c s : SInvC c s -> SInvC c (norm_sender s).
+Proof.
+  intros [Mn Mb Bf Tm W0 W1 Ct Fn]. constructor; unfold norm_sender, buffered_ok in *; proj; auto.
+  intros k Hk Hlt Hla. rewrite keys_norm. auto.
+Qed.
+
+Lemma segs_start_in m id n r i : In i (seg_ids m id n) -> In (TStart i r) (segs m id n r).
+Proof.
+  revert id. induction n as [|n IH]; intros id; cbn [segs seg_ids In]; [tauto|].
+  intros [<-|H]; [right; left; reflexivity|right; right; eauto].
+Qed.
+
+(* where the keys of the timer table come from, and that an expiry re-arms *)
+Lemma step_keys c s e s' o :
+  0 < mss c -> 0 <= dupack s -> step repaired c s e = Ok s' o ->
+  (forall id, In id (keys (timers s')) -> In id (keys (timers s)) \/ exists r, In (TStart id r) o) /\
+  (forall id, e = EExpire id -> exists r, In (TRestart id r) o).
+Proof.
+  intros Hm Hd H. destruct e as [ackno pid sample orc|id0| |]; cbn [step] in H.
+  - apply on_ack_shape in H; [|exact Hd]. destruct H as (_ & _ & _ & _ & _ & [D|Nw]).
+    + destruct D as (_ & _ & _ & T & _). split; [intros id Hi; left; rewrite <- T; exact Hi|discriminate].
+    + destruct Nw as (_ & _ & _ & T & _). split; [|discriminate]. intros id Hi. left. rewrite T in Hi.
+      apply (In_keys_filter (fun x => negb (mem x (acked_ids repaired c s ackno pid)))) in Hi. apply Hi.
+  - apply on_timer_shape in H as (_ & -> & O). proj. split.
+    + intros id Hi. left. rewrite keys_rearm in Hi. exact Hi.
+    + intros id E. injection E as <-. destruct O as [->|[-> _]]; eexists; [left; reflexivity|right; left; reflexivity].
+  - apply on_storecb_shape in H as (_ & p & _ & [(_ & _ & ->)|(_ & ->)]); proj; (split; [auto|discriminate]).
+  - apply send_guard in H; [|exact Hm]. destruct H as (n & -> & _ & Ht & _). proj. split; [|discriminate].
+    intros id Hi. rewrite Ht, keys_app, keys_map_pair in Hi. apply in_app_or in Hi as [Hi|Hi]; [left; exact Hi|right].
+    eexists. cbn [app]. apply segs_start_in. exact Hi.
+Qed.
+
+Definition timer_ev (e : aev) : Prop := exists id, e = ATimerInit id \/ e = ATimerFire id.
+
+Definition pending (st : lstate) (ev : option aev) : Prop :=
+  forall id, In id (keys (timers (l_snd st))) -> has_ev st ev (ATimerInit id) \/ has_ev st ev (ATimerFire id).
+
+Record LInvC (lc : lcfg) (st : lstate) (ev : option aev) : Prop := {
+  lcc_s : SInvC (lc_cfg lc) (l_snd st);
+  lcc_p : pending st ev
+}.
+
+Lemma find_none_keys id t : find (fun p : Z * Q => fst p =? id) t = None -> ~ In id (keys t).
+Proof.
+  intros H Hin. unfold keys in Hin. apply in_map_iff in Hin as (p & <- & Hp).
+  apply (find_none _ _ H) in Hp. cbn beta in Hp. rewrite Z.eqb_refl in Hp. discriminate.
+Qed.
+
+Lemma sender_event_C lc st e ev st' :
+  lc_ok lc -> mult (mss (lc_cfg lc)) (fsize (lc_cfg lc)) ->
+  LInvA lc st (Some ev) -> LInvB lc st (Some ev) -> LInvC lc st (Some ev) -> enabled (l_snd st) e ->
+  (match e with
+   | EAck ackno _ _ _ => ackno_of ev = Some ackno
+   | EExpire id => ev = ATimerFire id
+   | _ => ~ timer_ev ev
+   end) ->
+  sender_event lc st e = inl st' -> LInvC lc st' None.
+Proof.
+  intros [Hfx Hm Hdl] Hf HA HB [Cs Cp] He Hev Hse.
+  destruct (sender_event_spec lc st e Hfx Hm (la_sinv _ _ _ HA) He) as
+      (st2 & s' & o & Hse2 & Hstep & Hsn & Hn & Hsk & Hwa & Hor & (evs & Ha & Hfo & Hts & Htr) & _).
+  rewrite Hse in Hse2. injection Hse2 as <-.
+  assert (Hd : 0 <= dupack (l_snd st)) by apply (si_win _ _ (la_sinv _ _ _ HA)).
+  destruct (step_keys _ _ _ _ _ Hm Hd Hstep) as (K1 & K2).
+  constructor.
+  - rewrite Hsn. apply norm_C. eapply step_C; eauto; [apply HA|].
+    destruct e; cbn [ack_fwd]; auto. destruct (lb_eva _ _ _ HB ev ackno (or_introl eq_refl) Hev) as [[A _] _]. exact A.
+  - intros id Hi. rewrite Hsn in Hi. change (timers (norm_sender s')) with (map (fun p : Z * Q => (fst p, nq (snd p))) (timers s')) in Hi.
+    rewrite keys_norm in Hi.
+    assert (New : forall x, In x evs -> has_ev st' None x).
+    { intros x Hx. right. eapply Adds_has; [exact Ha|]. apply in_or_app. left. exact Hx. }
+    assert (Keep : forall x, (exists a, In a (l_agenda st) /\ ae_ev a = x) -> has_ev st' None x).
+    { intros x (a & Hin & E). right. exists a. split; [eapply Adds_In_old; eauto|exact E]. }
+    destruct (K1 id Hi) as [Hold|(r & Hr)]; [|left; apply New; eapply Hts; eauto].
+    destruct (Cp id Hold) as [[H|H]|[H|H]].
+    + (* the processed entry is this timer's Initialize: not a sender event *)
+      injection H as ->. exfalso. destruct e; cbn beta iota in Hev; try discriminate.
+      * apply Hev. exists id. left. reflexivity.
+      * apply Hev. exists id. left. reflexivity.
+    + left. apply Keep. exact H.
+    + injection H as ->. destruct e as [ackno pid sample orc|id0| |]; cbn beta iota in Hev; try discriminate.
+      * injection Hev as <-. destruct (K2 id eq_refl) as (r & Hr). right. apply New. eapply Htr; eauto.
+      * exfalso. apply Hev. exists id. right. reflexivity.
+      * exfalso. apply Hev. exists id. right. reflexivity.
+    + right. apply Keep. exact H.
+Qed.
+
+(* pieces of the loop that leave the sender alone and only add agenda entries *)
+Definition amono (st st' : lstate) : Prop :=
+  l_snd st' = l_snd st /\ forall a, In a (l_agenda st) -> In a (l_agenda st').
+
+Lemma amono_refl st : amono st st.
+Proof. split; auto. Qed.
+Lemma amono_trans a b c : amono a b -> amono b c -> amono a c.
+Proof. intros [A1 A2] [B1 B2]. split; [congruence|auto]. Qed.
+Lemma sched_amono st t p e : amono st (sched st t p e).
+Proof. split; [reflexivity|]. intros a Ha. unfold sched; lproj. apply ainsert_In. right. exact Ha. Qed.
+Lemma wd_get_amono st : amono st (wd_get st).
+Proof. unfold wd_get. destruct (wd_items (l_wd st)); [split; auto|]. eapply amono_trans; [|apply sched_amono]. split; auto. Qed.
+Lemma wa_get_amono st : amono st (wa_get st).
+Proof. unfold wa_get. destruct (wa_items (l_wa st)); [split; auto|]. eapply amono_trans; [|apply sched_amono]. split; auto. Qed.
+Lemma deliver_data_amono lc st id st' : deliver_data lc st id = inl st' -> amono st st'.
+Proof.
+  unfold deliver_data. destruct (pkt_get id (l_pkt st)) as [[tm ct]|]; [|discriminate].
+  destruct (existsb _ _); intros H; injection H as <-; [split; auto|].
+  eapply amono_trans; [|apply sched_amono]. split; auto.
+Qed.
+
+Lemma C_amono lc st st' ev : amono st st' -> ~ timer_ev ev -> LInvC lc st (Some ev) -> LInvC lc st' None.
+Proof.
+  intros [S A] Hnt [Cs Cp]. constructor; [rewrite S; exact Cs|].
+  intros id Hi. rewrite S in Hi.
+  assert (K : forall x, has_ev st (Some ev) x -> timer_ev x -> has_ev st' None x).
+  { intros x [H|(a & Hin & E)] Ht; [injection H as <-; contradiction|]. right. exists a. split; [apply A, Hin|exact E]. }
+  destruct (Cp id Hi) as [H|H]; [left|right]; apply K; auto; exists id; auto.
+Qed.
+
+Lemma C_amono' lc st st' ev : LInvC lc st (Some ev) -> ~ timer_ev ev -> amono st st' -> LInvC lc st' None.
+Proof. intros; eapply C_amono; eauto. Qed.
+
+Lemma C_oracle lc st ev o : LInvC lc st ev ->
+  LInvC lc (mkls (l_now st) (l_seq st) (l_agenda st) (l_snd st) (l_sink st) (l_pkt st) (l_wd st) (l_wa st)
+                 (l_n1 st) (l_n2 st) o (l_slog st) (l_d1 st) (l_d2 st)) ev.
+Proof. intros [Cs Cp]. constructor; lproj; auto. Qed.
+
+Lemma pop_C lc st a rest : LInvC lc st None -> l_agenda st = a :: rest -> LInvC lc (popped st a rest) (Some (ae_ev a)).
+Proof.
+  intros [Cs Cp] E. constructor; [exact Cs|]. intros id Hi.
+  assert (K : forall x, has_ev st None x -> has_ev (popped st a rest) (Some (ae_ev a)) x).
+  { intros x [H|(a0 & Hin & Ex)]; [discriminate|]. rewrite E in Hin. destruct Hin as [<-|Hin]; [left; congruence|right; eauto]. }
+  destruct (Cp id Hi) as [H|H]; [left|right]; apply K; exact H.
+Qed.
+
+Lemma handle_C lc st ev st' :
+  lc_ok lc -> mult (mss (lc_cfg lc)) (fsize (lc_cfg lc)) ->
+  LInvA lc st (Some ev) -> LInvB lc st (Some ev) -> LInvC lc st (Some ev) ->
+  handle lc st ev = inl st' -> LInvC lc st' None.
+Proof.
+  intros Hok Hf HA HB HC H.
+  assert (NT : forall x, (forall id, x <> ATimerInit id) -> (forall id, x <> ATimerFire id) -> ~ timer_ev x).
+  { intros x A B (id & [E|E]); [apply (A id E)|apply (B id E)]. }
+  destruct ev as [| |id|id|w|w|id|id|ackno pid tm ct|ackno pid tm ct]; cbn [handle] in H.
+  - eapply (sender_event_C lc st EWake); eauto; [|apply NT; intros ? ?; discriminate].
+    cbn [enabled]. pose proof (la_wake _ _ _ HA) as Hw. cbn [is_wake b2n] in Hw. destruct (wake (l_snd st)); [reflexivity|cbn [b2n] in Hw; lia].
+  - eapply (sender_event_C lc st EStoreCb); eauto; [|apply NT; intros ? ?; discriminate].
+    cbn [enabled]. pose proof (la_cb _ _ _ HA) as Hc. cbn [is_cb b2n] in Hc. lia.
+  - (* Timer Initialize *)
+    destruct HC as [Cs Cp].
+    destruct (find (fun p => fst p =? id) (timers (l_snd st))) as [[k r]|] eqn:Ef; injection H as <-.
+    + constructor; [exact Cs|]. intros i Hi. lproj.
+      destruct (Z.eq_dec i id) as [->|Hne].
+      * right. right. eexists. split; [apply ainsert_In; left; reflexivity|reflexivity].
+      * destruct (Cp i Hi) as [[E|(a & Hin & E)]|[E|(a & Hin & E)]]; try (injection E as E; congruence).
+        -- left. right. exists a. split; [apply ainsert_In; right; exact Hin|exact E].
+        -- right. right. exists a. split; [apply ainsert_In; right; exact Hin|exact E].
+    + apply find_none_keys in Ef. constructor; [exact Cs|]. intros i Hi.
+      destruct (Cp i Hi) as [[E|K]|[E|K]]; try discriminate.
+      * injection E as ->. contradiction.
+      * left. right. exact K.
+      * right. right. exact K.
+  - destruct (has_timer id (timers (l_snd st))) eqn:Eh.
+    + eapply (sender_event_C lc st (EExpire id)); eauto.
+    + injection H as <-. destruct HC as [Cs Cp]. constructor; [exact Cs|]. intros i Hi.
+      destruct (Cp i Hi) as [[E|K]|[E|K]]; try discriminate.
+      * left. right. exact K.
+      * injection E as ->. apply has_timer_In in Hi. congruence.
+      * right. right. exact K.
+  - destruct w; injection H as <-; (eapply (C_amono' _ _ _ _ HC); [apply NT; intros ? ?; discriminate|]); [apply wa_get_amono|apply wd_get_amono].
+  - destruct w; [destruct (wa_waiting _)|destruct (wd_waiting _)]; injection H as <-;
+      (eapply (C_amono' _ _ _ _ HC); [apply NT; intros ? ?; discriminate|]); try apply amono_refl; [apply wa_get_amono|apply wd_get_amono].
+  - destruct (pkt_get id (l_pkt st)) as [[tm ct]|]; [|discriminate].
+    destruct (Qltb _ _); [injection H as <-; eapply (C_amono' _ _ _ _ HC); [apply NT; intros ? ?; discriminate|apply sched_amono]|].
+    destruct (deliver_data lc st id) as [st1|] eqn:D; cbn [bind] in H; [|discriminate]. injection H as <-.
+    eapply (C_amono' _ _ _ _ HC); [apply NT; intros ? ?; discriminate|]. eapply amono_trans; [eapply deliver_data_amono; eauto|apply wd_get_amono].
+  - destruct (deliver_data lc st id) as [st1|] eqn:D; cbn [bind] in H; [|discriminate]. injection H as <-.
+    eapply (C_amono' _ _ _ _ HC); [apply NT; intros ? ?; discriminate|]. eapply amono_trans; [eapply deliver_data_amono; eauto|apply wd_get_amono].
+  - destruct (Qltb _ _); [injection H as <-; eapply (C_amono' _ _ _ _ HC); [apply NT; intros ? ?; discriminate|apply sched_amono]|].
+    destruct (deliver_ack lc st ackno pid tm) as [st1|] eqn:D; cbn [bind] in H; [|discriminate]. injection H as <-.
+    unfold deliver_ack in D. set (st0 := mkls _ _ _ _ _ _ _ _ _ _ (tl (l_oracle st)) _ _ _) in D.
+    assert (A0 : LInvA lc st0 (Some (AWireGetA ackno pid tm ct))).
+    { destruct HA as [Is Iw Ic [Ts Tf Tpk Tw Te Td Tk]]. constructor; subst st0; lproj; auto. constructor; lproj; auto. }
+    assert (B0 : LInvB lc st0 (Some (AWireGetA ackno pid tm ct))).
+    { destruct HB as [Bns Bsent Bsk Bwd Bevd Beva Bwa Bsort Bctl Bla]. constructor; subst st0; lproj; auto. }
+    assert (C0 : LInvC lc st0 (Some (AWireGetA ackno pid tm ct))) by (apply C_oracle; exact HC).
+    apply (sender_event_C lc st0 _ (AWireGetA ackno pid tm ct) st1 Hok Hf A0 B0 C0) in D; [|exact Logic.I|reflexivity].
+    destruct D as [Ds Dp]. pose proof (wa_get_amono st1) as [S A]. constructor; [rewrite S; exact Ds|].
+    intros i Hi. rewrite S in Hi. destruct (Dp i Hi) as [[E|(a & Hin & E)]|[E|(a & Hin & E)]]; try discriminate; [left|right]; right; exists a; split; auto.
+  - destruct (deliver_ack lc st ackno pid tm) as [st1|] eqn:D; cbn [bind] in H; [|discriminate]. injection H as <-.
+    unfold deliver_ack in D. set (st0 := mkls _ _ _ _ _ _ _ _ _ _ (tl (l_oracle st)) _ _ _) in D.
+    assert (A0 : LInvA lc st0 (Some (AWireOutA ackno pid tm ct))).
+    { destruct HA as [Is Iw Ic [Ts Tf Tpk Tw Te Td Tk]]. constructor; subst st0; lproj; auto. constructor; lproj; auto. }
+    assert (B0 : LInvB lc st0 (Some (AWireOutA ackno pid tm ct))).
+    { destruct HB as [Bns Bsent Bsk Bwd Bevd Beva Bwa Bsort Bctl Bla]. constructor; subst st0; lproj; auto. }
+    assert (C0 : LInvC lc st0 (Some (AWireOutA ackno pid tm ct))) by (apply C_oracle; exact HC).
+    apply (sender_event_C lc st0 _ (AWireOutA ackno pid tm ct) st1 Hok Hf A0 B0 C0) in D; [|exact Logic.I|reflexivity].
+    destruct D as [Ds Dp]. pose proof (wa_get_amono st1) as [S A]. constructor; [rewrite S; exact Ds|].
+    intros i Hi. rewrite S in Hi. destruct (Dp i Hi) as [[E|(a & Hin & E)]|[E|(a & Hin & E)]]; try discriminate; [left|right]; right; exists a; split; auto.
+Qed.
+
+Record lc_ok2 (lc : lcfg) : Prop := {
+  ok2_ok : lc_ok lc;
+  ok2_size : mult (mss (lc_cfg lc)) (fsize (lc_cfg lc))
+}.
+
+Lemma linit_C lc cw ss rtt0 orc : lc_ok2 lc -> LInvC lc (linit cw ss rtt0 orc) None.
+Proof.
+  intros [[_ Hm _] Hf]. constructor; unfold linit; lproj.
+  - apply init_C; assumption.
+  - intros id Hi. unfold init in Hi; proj. destruct Hi.
+Qed.
+
+Lemma reach_C lc cw ss rtt0 orc st :
+  lc_ok2 lc -> (zq (mss (lc_cfg lc)) <= cw)%Q -> (0 < rtt0)%Q ->
+  lreach lc (linit cw ss rtt0 orc) st -> LInvAB lc st /\ LInvC lc st None.
+Proof.
+  intros Hok2 Hc Hr. pose proof Hok2 as [Hok Hf]. induction 1 as [|st st' Hreach IH Hstep].
+  - split; [constructor; [apply linit_A; assumption|apply linit_B]|apply linit_C; exact Hok2].
+  - destruct IH as [[HA HB] HC]. split; [eapply lstep_AB; eauto; constructor; assumption|].
+    pose proof Hstep as H0. unfold lstep in H0. destruct (l_agenda st) as [|a rest] eqn:E; [discriminate|].
+    injection H0 as H0. fold (popped st a rest) in H0.
+    destruct (pop_A lc st a rest HA E) as (P1 & _).
+    eapply handle_C; eauto; [apply pop_B; assumption|apply pop_C; assumption].
+Qed.
+
+Lemma acount_pos p l : (0 < acount p l)%nat -> exists a, In a l /\ p (ae_ev a) = true.
+Proof.
+  unfold acount. induction l as [|x l IH]; cbn [filter length]; [lia|].
+  destruct (p (ae_ev x)) eqn:E; [intros _; exists x; split; [left; reflexivity|exact E]|].
+  intros H. destruct (IH H) as (a & Ha & Ea). exists a. split; [right; exact Ha|exact Ea].
+Qed.
+
+(* what is pending when the transfer is not finished: the retransmission timer of the first
+   unacknowledged segment has its kernel event on the agenda, or the sender process is about to run *)
+Definition pending_work (lc : lcfg) (st : lstate) : Prop :=
+  (exists id a, In id (keys (timers (l_snd st))) /\ id <= last_ack (l_snd st) < id + mss (lc_cfg lc) /\
+                In a (l_agenda st) /\ (ae_ev a = ATimerInit id \/ ae_ev a = ATimerFire id)) \/
+  (exists a, In a (l_agenda st) /\ (ae_ev a = ASenderWake \/ ae_ev a = ASenderCb)).
+
+(* UNFINISHED => PENDING: in every reachable state, if last_ack has not reached the end of the flow
+   (equivalently: the sink does not hold [0,size) contiguously, see the corollary), the agenda holds
+   a timer event of the first unacknowledged segment or an event that resumes the sender: the
+   simulation cannot become quiescent before the transfer is complete *)
+Theorem loop_unfinished_has_pending lc cw ss rtt0 orc st :
+  lc_ok2 lc -> (zq (mss (lc_cfg lc)) <= cw)%Q -> (0 < rtt0)%Q -> fsize (lc_cfg lc) <> 0 ->
+  lreach lc (linit cw ss rtt0 orc) st ->
+  last_ack (l_snd st) < fsize (lc_cfg lc) -> pending_work lc st.
+Proof.
+  intros Hok2 Hc Hr Hfs Hreach Hla. pose proof Hok2 as [Hok Hf]. pose proof Hok as [Hfx Hm Hd].
+  destruct (reach_C lc cw ss rtt0 orc st Hok2 Hc Hr Hreach) as [[HA HB] [Cs Cp]].
+  pose proof (LInvB_nse_le lc st None Hm HB) as Hnse. pose proof (lb_la _ _ _ HB) as Hlb.
+  set (s := l_snd st) in *. set (m := mss (lc_cfg lc)) in *.
+  assert (H0la : 0 <= last_ack s).
+  { pose proof (loop_last_ack_monotone lc cw ss rtt0 orc _ st Hok Hc Hr (reach_init _ _) Hreach) as H. exact H. }
+  destruct (Z_lt_ge_dec (last_ack s) (next_seq s)) as [Hlt|Hge].
+  - (* some sent data is not acknowledged: its timer is armed and has its kernel event *)
+    left. set (k := last_ack s / m).
+    assert (Hk : 0 <= k /\ k * m <= last_ack s < k * m + m).
+    { unfold k. pose proof (Z.div_mod (last_ack s) m ltac:(lia)) as E. pose proof (Z.mod_pos_bound (last_ack s) m Hm) as Bm.
+      split; [apply Z.div_pos; lia|]. nia. }
+    destruct Hk as (Hk0 & Hk1 & Hk2).
+    assert (Hin : In (k * m) (keys (timers s))) by (apply (sc_timers _ _ Cs); [exact Hk0|lia|lia]).
+    destruct (Cp _ Hin) as [[E|(a & Ha & Ea)]|[E|(a & Ha & Ea)]]; try discriminate.
+    + exists (k * m), a. repeat split; auto; lia.
+    + exists (k * m), a. repeat split; auto; lia.
+  - (* everything sent is acknowledged, more is to be sent: the sender process is runnable *)
+    right. assert (Hns : next_seq s < fsize (lc_cfg lc)) by lia.
+    destruct (sc_ctl _ _ Cs) as [Hfin|[Hwt|Hwk]].
+    + destruct (sc_fin _ _ Cs Hfin) as [_ Hx]. lia.
+    + destruct (tokens s) as [|tk] eqn:Et.
+      * pose proof (sc_wait0 _ _ Cs Hwt Et). lia.
+      * assert (Hp : (0 < pend s)%nat) by (apply (sc_wait1 _ _ Cs Hwt); lia).
+        pose proof (la_cb _ _ _ HA) as Hc'. cbn [opt_count] in Hc'. rewrite Nat.add_0_r in Hc'.
+        destruct (acount_pos is_cb (l_agenda st)) as (a & Ha & Ea); [fold s in Hc'; lia|].
+        exists a. split; [exact Ha|]. right. destruct (ae_ev a); try discriminate; reflexivity.
+    + pose proof (la_wake _ _ _ HA) as Hw. rewrite Nat.add_0_r in Hw. fold s in Hw. rewrite Hwk in Hw. cbn [b2n] in Hw.
+      destruct (acount_pos is_wake (l_agenda st)) as (a & Ha & Ea); [lia|].
+      exists a. split; [exact Ha|]. left. destruct (ae_ev a); try discriminate; reflexivity.
+Qed.
+
+(* corollaries in the words of the property *)
+Theorem loop_not_quiescent_while_unfinished lc cw ss rtt0 orc st :
+  lc_ok2 lc -> (zq (mss (lc_cfg lc)) <= cw)%Q -> (0 < rtt0)%Q -> fsize (lc_cfg lc) <> 0 ->
+  lreach lc (linit cw ss rtt0 orc) st ->
+  (last_ack (l_snd st) < fsize (lc_cfg lc) \/ nse (l_sink st) < fsize (lc_cfg lc)) -> l_agenda st <> [].
+Proof.
+  intros Hok2 Hc Hr Hfs Hreach Hun.
+  assert (Hla : last_ack (l_snd st) < fsize (lc_cfg lc)).
+  { destruct Hun as [H|H]; [exact H|].
+    destruct (loop_last_ack_le_prefix_le_next_seq lc cw ss rtt0 orc st (ok2_ok _ Hok2) Hc Hr Hreach) as [[A _] _]. lia. }
+  destruct (loop_unfinished_has_pending lc cw ss rtt0 orc st Hok2 Hc Hr Hfs Hreach Hla) as [(id & a & _ & _ & Ha & _)|(a & Ha & _)];
+    intros E; rewrite E in Ha; destruct Ha.
+Qed.
+
+(* a quiescent loop has delivered everything: the sink holds exactly [0, size) and last_ack = size *)
+Theorem loop_quiescent_complete lc cw ss rtt0 orc st :
+  lc_ok2 lc -> (zq (mss (lc_cfg lc)) <= cw)%Q -> (0 < rtt0)%Q -> fsize (lc_cfg lc) <> 0 ->
+  lreach lc (linit cw ss rtt0 orc) st -> l_agenda st = [] ->
+  last_ack (l_snd st) = fsize (lc_cfg lc) /\ nse (l_sink st) = fsize (lc_cfg lc) /\
+  sink_prefix (l_sink st) (fsize (lc_cfg lc)).
+Proof.
+  intros Hok2 Hc Hr Hfs Hreach Hq.
+  destruct (loop_last_ack_le_prefix_le_next_seq lc cw ss rtt0 orc st (ok2_ok _ Hok2) Hc Hr Hreach) as [[A B] P].
+  destruct (reach_C lc cw ss rtt0 orc st Hok2 Hc Hr Hreach) as [_ [Cs _]].
+  pose proof (sc_buf _ _ Cs) as [B1 B2]. specialize (B2 Hfs).
+  destruct (Z_lt_ge_dec (last_ack (l_snd st)) (fsize (lc_cfg lc))) as [Hlt|Hge].
+  - exfalso. eapply loop_not_quiescent_while_unfinished; eauto.
+  - assert (E1 : last_ack (l_snd st) = fsize (lc_cfg lc)) by lia.
+    assert (E2 : nse (l_sink st) = fsize (lc_cfg lc)) by lia.
+    split; [exact E1|]. split; [exact E2|]. rewrite <- E2. exact P.
+Qed.
+
+(* ================================================================================================ *)
+(* What is NOT proved (stated for the record; props/c16.py lists both under `partial`) *)
+
+(* liveness: with finitely many drops the loop becomes quiescent (and is then complete by
+   loop_quiescent_complete).  Proved: safety half only. *)
+Definition reliable_delivery_statement : Prop :=
+  forall lc cw ss rtt0 orc, lc_ok2 lc -> (zq (mss (lc_cfg lc)) <= cw)%Q -> (0 < rtt0)%Q -> fsize (lc_cfg lc) <> 0 ->
+  exists fuel st T, (T <= lc_tmax lc)%Q -> lrun fuel lc (linit cw ss rtt0 orc) = LQuiescent st.
+
+(* no drops and 2*delay below every armed timeout: no segment id is offered to the data path twice *)
+Definition lossfree_no_retransmit_statement : Prop :=
+  forall lc cw ss rtt0 orc fuel, lc_ok2 lc -> (zq (mss (lc_cfg lc)) <= cw)%Q -> (0 < rtt0)%Q ->
+  lc_drop_data lc = [] -> lc_drop_ack lc = [] ->
+  let st := lfinal (lrun fuel lc (linit cw ss rtt0 orc)) in
+  (forall e, In e (l_slog st) -> forall id r, In (id, r) (timers (sl_post e)) -> (2 * lc_delay lc < r)%Q) ->
+  NoDup (map dl_id (l_d1 st)).
+
+(* the proved part of the second: a segment is transmitted again only by its own timer's expiry or by
+   a duplicate ACK counted third or later (fast retransmit); everything else transmits new data only *)
+Theorem retransmission_needs_expiry_or_third_dup fx c s e s' o id z :
+  0 <= dupack s -> step fx c s e = Ok s' o -> In (Tx id z) o ->
+  e = EWake \/ e = EExpire id \/
+  (exists pid sample orc, e = EAck id pid sample orc /\ id = last_ack s /\ 3 <= dupack s + 1).
+Proof.
+  intros Hd H Hin. destruct e as [ackno pid sample orc|id0| |]; cbn [step] in H; [| | |left; reflexivity].
+  - right; right. apply on_ack_shape in H; [|exact Hd]. destruct H as (_ & _ & _ & _ & _ & [D|Nw]).
+    + destruct D as (Ea & _ & Ed & _ & _ & _ & _ & _ & _ & _ & [->|(-> & _ & H3)]); [destruct Hin|].
+      destruct Hin as [E|[]]. injection E as <- _. exists pid, sample, orc. repeat split; auto. lia.
+    + destruct Nw as (_ & _ & _ & _ & _ & -> & _). apply in_map_iff in Hin as (? & ? & _). discriminate.
+  - right; left. apply on_timer_shape in H as (_ & _ & [->|(-> & _)]).
+    + destruct Hin as [E|[]]; discriminate.
+    + destruct Hin as [E|[E|[]]]; [injection E as <- _; reflexivity|discriminate].
+  - apply on_storecb_shape in H as (-> & _). destruct Hin.
+Qed.
+
+Lemma current_is_repaired : current = repaired.
+Proof. reflexivity. Qed.
